@@ -12,2403 +12,2339 @@ Definition show_fres (r : fres) : string :=
   end.
 Definition check (rs : list rune) : string := digest (show_fres (format_res rs)).
 Definition full (rs : list rune) : string := show_fres (format_res rs).
-Eval vm_compute in ("<<<M3611>>>" ++ check (runes_of_ascii "options { StringPrefixLenType // c2
-= // c3
-u16 // c4a
-  // c4b
-;
-    // c5
-ArrayPrefixLenType
-    // c6
-= // c7a
-  // c7b
-u8 // c8
-;
-    // c9
-FixedStringPadFromLeft // c10a
-  // c10b
-=
-    // c11
-true ;
-    // c13
-FixedStringPadChar // c14a
-  // c14b
-= ' ' ; // c17a
-  // c17b
-} packet Quote { int64
-    // c22
-OrderId // c23
-,
-    // c24
-char[] Ref // c26
-, // c27
-@leftPad // c28a
-  // c28b
-( '0' // c30
-) // c31a
-  // c31b
-char[
-    // c32
-5 // c33a
-  // c33b
-] // c34a
-  // c34b
-price // c35a
-  // c35b
-, // c36
-} // c37a
-  // c37b
-packet // c38a
-  // c38b
-Heartbeat // c39a
-  // c39b
-{
-    // c40
-zchar[ // c41
-3 ] // c43a
-  // c43b
-venue
-    // c44
-, // c45
-string Flags
-    // c47
-,
-    // c48
-}
-    // c49
-packet // c50
-Trade
-    // c51
-{
-    // c52
-repeat // c53a
-  // c53b
-InTag787 // c54
-{ // c55a
-  // c55b
-i32 // c56
-venue , // c58
-char[
-    // c59
-5 // c60a
-  // c60b
-]
-    // c61
-sym
-    // c62
-, repeat // c64a
-  // c64b
-InPx98 // c65
-{ char[
-    // c67
-11 // c68
-] // c69a
-  // c69b
-Qty // c70
-,
-    // c71
-Heartbeat // c72
-, // c73
-char[] // c74
-price , u32
-    // c77
-x , // c79a
-  // c79b
-float64 // c80a
-  // c80b
-count ,
-    // c82
-repeat
-    // c83
-Quote
-    // c84
-,
-    // c85
-}
-    // c86
-,
-    // c87
-zchar[ // c88a
-  // c88b
-7 // c89
-]
-    // c90
-Note
-    // c91
-, // c92
-repeat // c93a
-  // c93b
-char[ 1 // c95a
-  // c95b
-] Tail // c97
-, }
-    // c99
-, // c100a
-  // c100b
-repeat // c101a
-  // c101b
-char[ // c102
-2 ] seqNo , InTail55 { // c108
-repeat Quote // c110
-, string
-    // c112
-msgKind // c113a
-  // c113b
-, // c114
-InPx18
-    // c115
-{
-    // c116
-char[] count // c118a
-  // c118b
-, repeat
-    // c120
-Quote , // c122a
-  // c122b
-uint16 // c123a
-  // c123b
-Qty // c124
-, // c125
-} , // c127a
-  // c127b
-char[ 4 ] // c130a
-  // c130b
-seqNo , // c132a
-  // c132b
-repeat // c133a
-  // c133b
-Heartbeat , // c135a
-  // c135b
-repeat string
-    // c137
-sym // c138a
-  // c138b
-, // c139a
-  // c139b
-} ,
-    // c141
-repeat // c142a
-  // c142b
-Quote // c143a
-  // c143b
-, // c144
-Heartbeat // c145
-, // c146a
-  // c146b
-@leftPad // c147a
-  // c147b
-(
-    // c148
-' ' // c149a
-  // c149b
-) // c150a
-  // c150b
-char[ // c151
-10 // c152
-] // c153a
-  // c153b
-OrderId // c154a
-  // c154b
-,
-    // c155
-}
-    // c156
-root // c157a
-  // c157b
-packet
-    // c158
-Fill // c159a
-  // c159b
-{ // c160a
-  // c160b
-Heartbeat // c161a
-  // c161b
-, uint32 count , // c165a
-  // c165b
-u8
-    // c166
-OrderId // c167
-, match
-    // c169
-OrderId // c170
-as // c171a
-  // c171b
-Body { 96
-    // c174
-:
-    // c175
-Quote // c176a
-  // c176b
-, 195 // c178a
-  // c178b
-: // c179a
-  // c179b
-Trade
-    // c180
-,
-    // c181
-187
-    // c182
-:
-    // c183
-Heartbeat // c184a
-  // c184b
-, // c185
-} // c186
-, // c187a
-  // c187b
-u32 // c188
-venue @calculatedFrom( // c190a
-  // c190b
-""CRC32"" // c191a
-  // c191b
-) // c192
-, // c193
-} // c194
-")).
-Eval vm_compute in ("<<<M980>>>" ++ check (runes_of_ascii "packet
-trueish {
-Packet{u8x
-    // " ++ [128512]%N ++ runes_of_ascii " emoji
-    { match Packet as f32a//	t
-{ [255  ,255, 1 ] :calculatedFrom ,
-    // packet A { u8 x, }
-    ""// no comment""  : a1// c
-,  10
-    :
-Foo
-    //
-    , ""\" ++ [233]%N ++ runes_of_ascii """ :
-//
-// packet A { u8 x, }
-repeatCount , ""abc"" :MetaDataX
-    , 00:u128}
-, repeat o //x
-roots
-`tab	here` , // @lengthOf(
-int16 packetx`" ++ [28040; 24687; 31867; 22411]%N ++ runes_of_ascii "` ,
-}, } ,crc @lengthOf(i8i8 )	``
-,
-repeat uint8 body ,@leftPad	( '\x00' ) string packetx@calculatedFrom(	""packet""
-) , f64
-int
-    `line1
-line2`
-, } packet crc {	i32 u128 `line1
-line2`  , @tag( 42 )lengthOf {
-    leftPad@lengthOf(
-    repeatCount
-    ) , u16 _x ,match rootA as// `tick` ""quote"" 'q'
-msg_type
-    { [ """"
-    ] : Z9_ 0
-/// triple
-// `tick` ""quote"" 'q'
-: tag ""\" ++ [233]%N ++ runes_of_ascii """	: As,""1"" :Logon //	t
-,00	: A 3:BodyLength ,	} , } ,	@tag( 1 )int8
-Pad
-, zchar[ 65535
-    // `tick` ""quote"" 'q'
-    ]
-asx // trailing space 
-,
-}
+Eval vm_compute in ("<<<M4025>>>" ++ check (runes_of_ascii "
 options
-{trueish
-    // trailing space 
-    =	false ; } packet Packet	{ @calculatedFrom( ""abc"" ) u {repeat Logon {
-char[] msg_type @calculatedFrom(
-    // packet A { u8 x, }
-    ""a\""b""
-    )	`// not a comment`, }, repeat char[ // a // b
-00]
-rootA , }
-    ,
-// " ++ [128512]%N ++ runes_of_ascii " emoji
-//
-@calculatedFrom(""abc"" )string
-    float,
-match Foo as Z9_{ [	0 , ""packet"" // packet A { u8 x, }
-, ""a	b"" , 007 , 4294967296 , ""\n"" ]
-    :trueish
+
+    { // c1a
+
+// c1b
+    	StringPrefixLenType =
+
+    // c3
+		u16	;  // c5
+
+  ArrayPrefixLenType
+    = 
+	    // c7
+    u8
+	;
+
+    FixedStringPadFromLeft// c10a
+    // c10b
+  =
+        // c11
+
+true	// c12
+      ;	// c13a
+// c13b
+    FixedStringPadChar // c14
+	  = 	 // c15
+    	' '	;	// c17
+  }	// c18a
+  // c18b
+  packet// c19
+
+  Quote 
+// c20
+	{ 
+
+// c21
+      int64 
+    // c22
+	  OrderId  // c23a
+
+// c23b
+	,
+char[] // c25
+      Ref 	 // c26a
+
+// c26b
+    ,// c27
+	@leftPad
+
+( // c29a
+	// c29b
+    	'0' 
+      // c30
+) 	 // c31a
+    	// c31b
+  char[ 	 // c32a
+  // c32b
+5 	 // c33
+]// c34a
+// c34b
+	price
 ,
-[ 65535, """ ++ [28040; 24687]%N ++ runes_of_ascii """] : u8x 65535:roots
-    // a // b
-    [""CRC32""]: falsey ,  00
-// `tick` ""quote"" 'q'
-// `tick` ""quote"" 'q'
-: roots
-,} , @rightPad (	' ' // packet A { u8 x, }
-)
-    x_y_z @calculatedFrom(
-""\" ++ [233]%N ++ runes_of_ascii """ )
-, }packet matchKey {// c
-@tag( 7	) leftPad
-@calculatedFrom(""\" ++ [233]%N ++ runes_of_ascii """ )
-`" ++ [233]%N ++ runes_of_ascii "`  ,  @tag(
-    007 ) uint8
-leftPad
-, int {i16 x``
-, match
-    len
+} 
+	// c37
+    packet // c38
+Heartbeat 	 // c39
+  {
+    zchar[  // c41
+3 ]
+
+    venue
+
+    ,	// c45a
+
+// c45b
+
+  string// c46a
+// c46b
+  	Flags
+	    // c47
+  , // c48a
+// c48b
+}	packet	// c50
+Trade 
+      // c51
+	{	// c52a
+
+	// c52b
+    repeat 
+        // c53
+InTag787 	 // c54
+	{
+
+i32 // c56
+    	venue// c57
+
+, 
+
+    // c58
+  	char[
+
+    5
+]// c61
+  sym  // c62a
+// c62b
+	, 
+	// c63
+    repeat InPx98 // c65
+	{char[ // c67a
+    // c67b
+		11
+// c68
+	]
+	Qty
+    // c70
+
+	,// c71a
+
+  // c71b
+Heartbeat	// c72
+		,
+
+char[] // c74
+		price  // c75
+,// c76a
+  // c76b
+		u32	// c77a
+
+// c77b
+
+x 	 // c78
+  , 
+    // c79
+		float64 	 // c80
+
+count// c81a
+      // c81b
+  ,
+
+repeat // c83
+	Quote
+// c84
+  , 	 // c85a
+	// c85b
+  }	, 
+      // c87
+    zchar[  // c88a
+    // c88b
+	  7 
+// c89
+  	] 
+	// c90
+	Note
+
+    // c91
+  	, // c92a
+    	// c92b
+      repeat 
+	// c93
+	  char[  // c94a
+  // c94b
+
+1] // c96a
+
+// c96b
+	Tail // c97a
+  // c97b
+  	, 
+	    // c98
+	}	// c99a
+
+	// c99b
+	  ,	repeat  char[// c102
+
+2 
+    // c103
+	]  // c104a
+  // c104b
+
+seqNo ,// c106a
+      // c106b
+  	InTail55 	 // c107a
+	  // c107b
+{ 	 // c108
+      repeat 	 // c109a
+		// c109b
+    Quote 	 // c110
+,  // c111
+	string 
+	    // c112
+
+msgKind
+,  // c114a
+  // c114b
+  InPx18 { 	 // c116a
+	// c116b
+char[]count
+, 
+// c119
+
+  repeat// c120
+
+Quote ,	// c122
+uint16	// c123a
+
+// c123b
+    Qty
+,
+
+    // c125
+	}
+
+// c126
+	,
+	    // c127
+char[ 	 // c128a
+// c128b
+	4
+
+]  
+      // c130
+  seqNo 
+    // c131
+  ,
+    // c132
+
+repeat 	 // c133
+	Heartbeat  
+  // c134
+  ,
+repeat	string
+sym // c138
+
+, // c139a
+// c139b
+    } // c140
+    , repeat 
+      // c142
+
+  Quote // c143
+	,  // c144
+	  Heartbeat // c145
+,
+	@leftPad
+	(// c148
+' ' 	 // c149
+
+  )	char[  10 // c152a
+  // c152b
+  ] OrderId	// c154a
+// c154b
+  , // c155a
+	// c155b
+    	} 	 // c156
+    	root  // c157a
+// c157b
+  packet // c158
+    Fill 
+    // c159
+
+	{
+
+    Heartbeat  
+      // c161
+	,
+uint32	// c163a
+		// c163b
+    count
+// c164
+
+	,	// c165
+	u8  // c166
+    OrderId // c167
+		, 
+    // c168
+	match
+OrderId  // c170
     as
-    f32a {""it's"":calculatedFrom	,  [ 0
-] : lengthOf
-, 7 // @lengthOf(
-: // packet A { u8 x, }
-x_y_z
-, ""a\""b"" : float
-    // c
-    ,1
-    :Pad,  } , } , o {
-    // @lengthOf(
-    u8x
-    metadata`tab	here` , asx
-    {
-    match // trailing space 
-int
-    // c
-    as
-    /// triple
-    x_y_z
-/// triple
-// packet A { u8 x, }
-{ ""a	b"" :  falsey}
-    ,	}
-, repeat int16 As  `crlf
-line`// c
-, }
-    // " ++ [27880; 37322]%N ++ runes_of_ascii "
-    , i32 i64_  `" ++ [233]%N ++ runes_of_ascii "`
-//	t
-/// triple
-,T , }
-// c
+	// c171
+	  Body
+	// c172
+	{
+    // c173
+  96 // c174
+:	// c175
+      Quote
+    // c176
+	  ,
+	// c177
+
+195 
+    // c178
+  :// c179
+Trade // c180a
+
+// c180b
+  ,// c181a
+  	// c181b
+	187 
+        // c182
+  	: 
+// c183
+	  Heartbeat // c184
+	,
+    // c185
+}
+    // c186
+  , u32 
+
+// c188
+venue 	 // c189
+@calculatedFrom(
+    // c190
+
+  ""CRC32"")
+        // c192
+  ,
+// c193
+    }
 ")).
-Eval vm_compute in ("<<<M3891>>>" ++ check (runes_of_ascii "packet T {
-    @lengthOf(Foo)
-    @tag(10)
-    @lengthOf(rootA)
-    chars `it's`,
-    repeat char roots,
-    @tag(0)
-    match charz as leftPad {
-        0 : tag,
-    },
-    Z9_ u128,
-    int32 int @calculatedFrom(""\n""),
-    @lengthOf(int)
-    Z9_ {
-        repeat char[] calculatedFrom `crlf
-                line`,
-        zchar[0] o @calculatedFrom(""\" ++ [233]%N ++ runes_of_ascii """),
-        u8x {
-            _x,// @lengthOf(
-            zchar[3] stringy @lengthOf(T),
-            // trailing space 
-            uint8 body,
-            char[] falsey @calculatedFrom(""// no comment"") `" ++ [233]%N ++ runes_of_ascii "`,/// triple
-        },
-    },
-    @tag(1)
-    @calculatedFrom(""a\\"")
-    @rightPad('0')
-    i32 tag @calculatedFrom(""a\""b"") `crlf
+Eval vm_compute in ("<<<M3851>>>" ++ check (runes_of_ascii "
+packet 
+	    //
+	// " ++ [128512]%N ++ runes_of_ascii " emoji
+    body {
+    @calculatedFrom( """ ++ [233]%N ++ runes_of_ascii "t" ++ [233]%N ++ runes_of_ascii """ 
+)
+body{o	@calculatedFrom( 
+""" ++ [233]%N ++ runes_of_ascii "t" ++ [233]%N ++ runes_of_ascii """ 
+) , } ,
+
+char i8i8 @lengthOf(int
+	)
+`doc`  ,
+
+    @rightPad (
+)
+	char[
+
+    0
+
+]
+    tag@lengthOf( repeatCount) 
+,
+
+    @calculatedFrom( """" )x @calculatedFrom(
+
+    """ ++ [28040; 24687]%N ++ runes_of_ascii """
+)	,
+    @calculatedFrom(
+
+    """" )	// c
+  Packet
+    `u8 x,` , // trailing space 
+    string x_y_z ,  string_
+	charz `doc`	,  match
+
+packetx as 
+string_ {00 
+:
+asx	,
+	[
+
+""\n""
+]  // " ++ [128512]%N ++ runes_of_ascii " emoji
+      :
+
+    float  ,
+	[
+
+""" ++ [28040; 24687]%N ++ runes_of_ascii """ 
+
+// @lengthOf(
+	/// triple
+	  ,
+	3 
+]  :
+
+Foo
+
+, [
+	0123456789 
+, ""1""
+] 
+:
+    o
+
+""\" ++ [233]%N ++ runes_of_ascii """ : 
+_x
+,
+
+    0123456789: matchKey} , @rightPad(' '
+
+)stringy
+{
+
+match
+calculatedFrom	as  o  {// c
+
+  1
+:
+	x_y_z,  007
+
+    :	pack  ,	3 : 
+asx 
+// trailing space 
+,// " ++ [27880; 37322]%N ++ runes_of_ascii "
+}  ,
+
+}  , 
+@calculatedFrom(  """" )@tag( 4294967296 )
+    repeat	i64// packet A { u8 x, }
+
+chars 
+,  }
+	packet 
+roots	{
+}  root
+packet 
+rootA
+{
+
+    @tag(255
+)	pack
+    `it's`
+
+    ,  @lengthOf( f32a
+	)	@tag( 
+        // a // b
+    	1
+)	@tag(
+	7 )
+    // " ++ [128512]%N ++ runes_of_ascii " emoji
+    Foo
+
+    @calculatedFrom(
+//x
+
+//
+
+""" ++ [128512]%N ++ runes_of_ascii """ )
+	, repeat calculatedFrom {	string
+    leftPad
+	`doc`
+,repeat crc{
+pack
+
+@calculatedFrom(  ""\" ++ [233]%N ++ runes_of_ascii """
+    )
+    , 
+}  ,
+
+    }
+,
+
+    string_  { match 
+i64_ as u8x  {
+
+0 :
+    _x
+, }  , 
+}  , 
+@lengthOf(
+u128 ) 	 // trailing space 
+
+match asx
+	as
+charz
+
+    {
+[ """" 
+,
+
+4294967296 ]	: A
+    , // trailing space 
+    1:  options1
+    ,
+	4294967296	:
+pack  42
+:
+	charz,
+[
+	""`tick`""
+,// a // b
+	""x y"" 	 /// triple
+,  // " ++ [27880; 37322]%N ++ runes_of_ascii "
+	255
+	] // packet A { u8 x, }
+
+	: stringy
+, }
+	, 
+@rightPad (
+	' ') @lengthOf(  // c
+    Packet
+
+    )
+	repeat
+
+uint8x
+
+trueish ,  }
+
+MetaData	i8i8
+
+    {	zchar[	10 ]  Z9_
+, zchar[
+
+0
+
+    ]
+
+    Header
+`a\`  ,stringy roots // " ++ [27880; 37322]%N ++ runes_of_ascii "
+  	,	}packet	options1  // c
+  {char[ 10
+    ]Pad
+@calculatedFrom( ""\n""
+	)
+
+`// not a comment` 
+,
+
+    roots
+	,
+@calculatedFrom( 
+""x y""
+	) zchar
+,
+
+    @rightPad
+
+(
+'0'
+)
+
+repeat  string 
+
+//x
+//
+
+  roots `say ""hi""` ,}
+")).
+Eval vm_compute in ("<<<M4318>>>" ++ check (runes_of_ascii "packet zchar {
+    match calculatedFrom as repeatCount {
+        [""{,}""] : zchar,
+        00 : Pad,
+        0 : pack,
+    },// @lengthOf(
+    f64 o `" ++ [28040; 24687; 31867; 22411]%N ++ runes_of_ascii "`,
+    int32 f32a @lengthOf(body) `
+        `,
+    char[3] chars `crlf
         line`,
-    match BodyLength as f32a {
-        [
-            3, 007, 65535, 1, 0,
-            ""`tick`"", ""`tick`"", ""1""
-        ] : Z9_,
-        [""CRC32"", ""a\\""] : chars,
-        ""a\""b"" : roots,
-        1 : f32a,
-    },
-    trueish {
-        //
-        /// triple
-        zchar {
-            match Pad as tag {
-                [0123456789, 00, 7, ""a	b"", ""CRC32""] : options1,
-            },
-            pack {
-                zchar[10] chars,
-            },
-            u `crlf
-                        line`,
-            repeat int32 _x `two words`,
-        },
-    },// trailing space 
-    falsey As,
 }
 
-options {
-    falsey = ""abc"";
-    Foo = false;
+// @lengthOf(
+// packet A { u8 x, }
+MetaData metadata {
+    string int,
+    len lengthOf,
 }
 
 root packet A {
-    @lengthOf(uint8x)
-    match u8x as msg_type {
-        [007, 00] : u128,
-        [
-            255, 10, ""{,}"", ""// no comment"", """",
-            """ ++ [128512]%N ++ runes_of_ascii """
-        ] : T,
-        255 : string_,
-        ""`tick`"" : As,
+    @tag(0123456789)
+    zchar[0123456789] BodyLength,
+    @leftPad('0')
+    @rightPad(' ')
+    zchar[0123456789] tag `it's`,
+    @tag(007)
+    // trailing space 
+    @tag(7)
+    falsey @calculatedFrom(""\" ++ [233]%N ++ runes_of_ascii """),
+    @calculatedFrom(""{,}"")
+    repeat Packet,
+    @lengthOf(u)
+    @calculatedFrom(""a\""b"")
+    @lengthOf(lengthOf)
+    char[] uint8x,
+    @leftPad('\x00')
+    // trailing space 
+    repeat T {
+        i8i8 a1,
+        char[65535] chars `u8 x,`,
+        Pad,
+    },
+    @lengthOf(o)
+    u8 x,
+    @calculatedFrom(""a	b"")
+    lengthOf `// not a comment`,
+    A {
+        repeat calculatedFrom matchKey,
+        options1 @calculatedFrom(""a	b""),// trailing space 
+        repeat u `line1
+                line2`,
     },
 }
 
-MetaData chars {
-    char[65535] roots,
-    i64 u128,
-    char[42] pack,
-}//x")).
-Eval vm_compute in ("<<<M3886>>>" ++ check (runes_of_ascii "
-packet BodyLength// packet A { u8 x, }
-  {  leftPad
-	lengthOf ,float	rootA `it's`
-
-,
-
-    @leftPad ('0' )
-repeat
-
-BodyLength , 
-@rightPad
-
-()  i16// a // b
-falsey@lengthOf( 	 // a // b
-  i64_
-) , // `tick` ""quote"" 'q'
-
-repeat
-
-char[
-0123456789
-]	uint8x,
-
-repeat 
-    // " ++ [27880; 37322]%N ++ runes_of_ascii "
-		f64 i64_ 
-, a1
-
-    tag`" ++ [233]%N ++ runes_of_ascii "` , char[ 10
-
-    ]	packetx 
-`say ""hi""` , repeat
-	tag
-metadata
-	`tab	here`, }
-	/// triple
-options
-{ crc
-=
-"""";
+packet i8i8 {
 }
-    packet
-	int
 
-    {
-
-    repeat
-zchar[
-
-255
-] i64_ 
-`two words` //x
-  , string
-
-tag
-@lengthOf(  // a // b
-Header)	,	char
-
-chars ,
-@lengthOf(
-    crc
-)
-    match  asx as
-    Foo
-
-    { 7
-: 
-BodyLength
-
-    ,
-""packet""
-:	Z9_	,
-007:
-
-matchKey	,
-    }
-	,
-uint16
-metadata	// a // b
-
-  ,
-
-    i64_
-
-    {
+packet pack {
+    zchar[0123456789] leftPad `
+        `,
+    @rightPad('\x00')
+    repeat int `" ++ [28040; 24687; 31867; 22411]%N ++ runes_of_ascii "`,
+    match Packet as BodyLength {
+        [00, 7] : falsey,
+    },
+    @tag(00)
+    repeat zchar[1] len `u8 x,`,
+    @leftPad()
+    rootA @lengthOf(len),
+    @tag(42)
+    // `tick` ""quote"" 'q'
+    @lengthOf(i64_)
+    repeat len {
+        x {
+            Logon {
+                options1 Logon,
+            },
+            stringy {
+                string body @lengthOf(tag),
+            },
+            falsey falsey,
+        },
+        MetaDataX roots `// not a comment`,
+    },
+}")).
+Eval vm_compute in ("<<<M497>>>" ++ check (runes_of_ascii "
+root
+packet  a1 { uint64
+    charz
+,
+BodyLength	_x`
+`
+    ,	u64 roots `tab	here`	,
+match calculatedFrom as calculatedFrom { 10:  leftPad } ,
+i64_ @calculatedFrom( ""// no comment"" )
+,
+match
+// a // b
+/// triple
+len as BodyLength { [ ""CRC32"" //x
+, ""\" ++ [233]%N ++ runes_of_ascii """]
+:  MetaDataX , } ,uint64 trueish `u8 x,`// trailing space 
+, repeat
+i32 options1
+,// @lengthOf(
+}
+packet pack//	t
+{float32 asx
+    `a\` , int64 charz
+    //	t
+    @lengthOf(  repeatCount ) `" ++ [28040; 24687; 31867; 22411]%N ++ runes_of_ascii "`, @lengthOf(	u8x )
+BodyLength @calculatedFrom(  ""a\\"")  , @lengthOf(
+    Packet )repeat
+    u32 Pad	,/// triple
+}	packet options1{
+    @rightPad  ('0'
+    )i8i8  @lengthOf( stringy) ,
+int64
+    As ,	f64 crc
+    @lengthOf( u128 ) , rootA @calculatedFrom( ""1"" ) `a\`	,
+    }packet _x { repeat T x_y_z
+// trailing space 
+// @lengthOf(
+`line1
+line2`
+, }root	packet //x
+Foo
+{ @lengthOf(
+Logon
+) @calculatedFrom( ""{,}""
+    ) @calculatedFrom( ""`tick`"" )match roots// packet A { u8 x, }
+as charz	{ 7 :
+string_
+//
+// `tick` ""quote"" 'q'
+},u64// trailing space 
+u@calculatedFrom( ""\" ++ [233]%N ++ runes_of_ascii """ )
+// trailing space 
+// a // b
+,
+@tag(
+007 )
+    // packet A { u8 x, }
+    @lengthOf( zchar ) match body as trueish
+{ [ 10
+, ""packet"" ,3 ,
+    0 ,
+    00 , """"	]
+:repeatCount
+    // a // b
+    , // " ++ [128512]%N ++ runes_of_ascii " emoji
+[ // `tick` ""quote"" 'q'
+4294967296 ]  : Logon [ ""CRC32"" , ""it's""
+] :  x_y_z ,} ,  T x
+,Pad , u8x T
+`{ , }`  ,@lengthOf( As
+    ) match o as repeatCount// a // b
+{[
+    255  ] :uint8x// a // b
+, } , u128 Foo ,} 	 ")).
+Eval vm_compute in ("<<<M823>>>" ++ check (runes_of_ascii "options
+    {f32a
+    =
+'0' ; x_y_z
+    =""\" ++ [233]%N ++ runes_of_ascii """ ;int	= ""1""	;  Z9_ = int16
+; calculatedFrom =
+true ;
+}
+MetaData
+trueish{ x_y_z trueish `// not a comment`
+, } packet zchar {@lengthOf(
+As )
 repeat
-	u8  msg_type
-, stringy 
+options1 { char[]
+    //	t
+    o @calculatedFrom( ""abc"" )
+    , repeat pack /// triple
+, }	, @calculatedFrom( ""a\""b"" ) Foo rootA
+    ,match charz
+as falsey { ""x y""
+:x_y_z, 00 :	BodyLength ,  ""x y"" : x_y_z
+, // @lengthOf(
+}, Foo { repeat As{ repeat u A
+    /// triple
+    ,	repeat
+Logon { uint8x @calculatedFrom(
+""\n"" ) `{ , }` , i16 float ,},
+f64 crc
+`tab	here`
+, repeat char[] As  ``
+, } , calculatedFrom
+{ match body as
+    // a // b
+    a1{
+[""{,}"" , // trailing space 
+""\n"" , """" // c
+, ""1"" , """ ++ [128512]%N ++ runes_of_ascii """
+    ] : BodyLength , ""a\\"" :	chars ,65535
+: o// " ++ [27880; 37322]%N ++ runes_of_ascii "
+[ ""\n"" ] : options1
+    ""CRC32""	: BodyLength,},
+repeat o {
+    string
+    rootA// c
+, } ,
+repeat  zchar[
+65535 ] matchKey `" ++ [28040; 24687; 31867; 22411]%N ++ runes_of_ascii "`,
+    }, char[]
+    rootA `// not a comment` ,repeat
+    T	Logon
+`" ++ [28040; 24687; 31867; 22411]%N ++ runes_of_ascii "` , },
+    @leftPad ( )@tag( 00
+// " ++ [27880; 37322]%N ++ runes_of_ascii "
+// " ++ [27880; 37322]%N ++ runes_of_ascii "
+)@lengthOf(
+Pad
+    // packet A { u8 x, }
+    )  match A as
+a1{
+    //
+    65535 :stringy	[ ""a\""b"" // " ++ [128512]%N ++ runes_of_ascii " emoji
+,
+// a // b
+// packet A { u8 x, }
+""a\\"" ] :
+/// triple
+// trailing space 
+As ,
+// " ++ [27880; 37322]%N ++ runes_of_ascii "
+//
+""// no comment""
+: repeatCount
+    , """": body[""" ++ [28040; 24687]%N ++ runes_of_ascii """
+    , """ ++ [233]%N ++ runes_of_ascii "t" ++ [233]%N ++ runes_of_ascii """]
+    // @lengthOf(
+    :
+options1  , }, } // trailing space ")).
+Eval vm_compute in ("<<<M281>>>" ++ check (runes_of_ascii "
+packet leftPad { // packet A { u8 x, }
+@leftPad ( ' '
+)
+repeat
+    x
+`" ++ [233]%N ++ runes_of_ascii "` ,
+repeat
+    pack ,
+// a // b
+// a // b
+uint32  A , // @lengthOf(
+@tag(10  )@leftPad
+    ( )
+    @calculatedFrom( ""a	b"" ) u32 stringy @lengthOf( lengthOf ) , Foo`line1
+line2` , crc `u8 x,`  ,// @lengthOf(
+} options {//
+x = float64
+    // trailing space 
+    ; u8x = //x
+""" ++ [128512]%N ++ runes_of_ascii """ ; pack =
+// `tick` ""quote"" 'q'
+// trailing space 
+' ';
+    // c
+    falsey
+= ""a\""b"" } packet As
+{repeat repeatCount u8x `doc`
+    // packet A { u8 x, }
+    , @leftPad ( '0' ) @calculatedFrom(""\" ++ [233]%N ++ runes_of_ascii """
+    )match asx
+as crc//x
+{ 4294967296
+    //	t
+    :
+    u8x
+    , ""\n"" :u128
+    , 0:asx
+    [
+    255
+    // trailing space 
+    ,""x y""	] :
+    Logon ,0123456789 : A , 255	:i64_ , }
+,
+    metadata @lengthOf( u8x
+)  , repeat crc
+{	uint32
+Packet	, } /// triple
+, @calculatedFrom(""" ++ [128512]%N ++ runes_of_ascii """ )T u128  `{ , }` ,repeat i32	msg_type , @lengthOf(// packet A { u8 x, }
+T	)int	,float {
+// @lengthOf(
+// `tick` ""quote"" 'q'
+match trueish	as leftPad
+    /// triple
+    {
+[ 0  ,	""" ++ [28040; 24687]%N ++ runes_of_ascii """  ]:
+f32a, }  , uint32 i8i8,Packet{	char[ 65535 ] o
+    // trailing space 
+    @calculatedFrom( ""it's""  ) , }, // a // b
+} , uint8 i8i8 `say ""hi""`, } /// triple
+packet
+BodyLength{ }
+")).
+Eval vm_compute in ("<<<M969>>>" ++ check (runes_of_ascii "root packet
+stringy {
+int8 As @lengthOf( trueish ) ,}
+packet
+string_ {
+stringy
+`crlf
+line`
+,uint16
+    metadata
+    // `tick` ""quote"" 'q'
+    ,  @tag( 4294967296
+    // `tick` ""quote"" 'q'
+    ) @tag( 255)
+f32a u	`doc`  ,
+    //x
+    zchar[ 3 ] Packet ,@leftPad
+(
+    //	t
+    '0')@lengthOf( uint8x  ) zchar[ 0 ]uint8x@lengthOf(
+    // packet A { u8 x, }
+    Pad
+) `two words` ,
+// " ++ [27880; 37322]%N ++ runes_of_ascii "
+// " ++ [128512]%N ++ runes_of_ascii " emoji
+@rightPad
+( '\x00'  ) i8i8 roots ,@tag(
+    007 ) u128	@calculatedFrom( """ ++ [233]%N ++ runes_of_ascii "t" ++ [233]%N ++ runes_of_ascii """ ) `two words`	, string string_ @lengthOf( falsey)
+`a\`
+,match tag as i8i8
 {
+""x y"":
+asx , } ,
+}
+    packet	u8x { } options{
+zchar =
+    f64
+    ;} packet
+    T	{
+@lengthOf( string_
+)
+    crc { metadata // a // b
+charz , char[]uint8x
+    `line1
+line2`
+    ,
+    uint8 Packet, }
+// a // b
+/// triple
+, metadata @calculatedFrom( ""\" ++ [233]%N ++ runes_of_ascii """ )
+// " ++ [128512]%N ++ runes_of_ascii " emoji
+// " ++ [27880; 37322]%N ++ runes_of_ascii "
+`{ , }` ,
+zchar @calculatedFrom( ""it's"" ) `a\`
+, u64  packetx , match //	t
+u128 as i8i8 { 4294967296 :x_y_z
+// trailing space 
+//x
+} ,
+int16 float
+,	match chars as
+    Pad
+    { ""packet"" : Packet ,
+}
+    ,
+    matchKey { metadata@lengthOf( Pad )`" ++ [233]%N ++ runes_of_ascii "` ,BodyLength``  , A , } ,
+    // " ++ [27880; 37322]%N ++ runes_of_ascii "
+    } 	 ")).
+Eval vm_compute in ("<<<M953>>>" ++ check (runes_of_ascii "  packet leftPad { char[4294967296
+]Pad , } packet Z9_ {repeat int,i64_ @lengthOf(float  ) , repeat leftPad{
+    string
+    _x , char[ 65535 ] x @calculatedFrom( ""it's"" ) `crlf
+line`,
+    },	@calculatedFrom( """ ++ [28040; 24687]%N ++ runes_of_ascii """ ) i32 tag/// triple
+, string
+    body
+@lengthOf( body ) `` //
+, @tag( 4294967296  )uint16 Logon @lengthOf(
+// packet A { u8 x, }
+// packet A { u8 x, }
+leftPad ) // a // b
+`` ,
+    } root packet repeatCount { } root
+packet options1
+    {@lengthOf(
+Z9_ ) @calculatedFrom( ""// no comment"")@calculatedFrom( ""1"" )  zchar // trailing space 
+{
+u8 repeatCount @calculatedFrom(""it's"" ) ,Packet @lengthOf( // @lengthOf(
+_x)
+    //
+    , } , @calculatedFrom( ""// no comment"") repeat	A{ int32 crc @calculatedFrom( ""// no comment"" ) `{ , }`,
+    //x
+    repeat u64 //x
+packetx `// not a comment`, } , i16
+    packetx  @calculatedFrom(	""abc"" )	`" ++ [28040; 24687; 31867; 22411]%N ++ runes_of_ascii "` ,
+    // packet A { u8 x, }
+    u16 Foo  @calculatedFrom( ""CRC32"" ), //
+} options { Header
+//	t
+// c
+='\x00'
+    ;// " ++ [27880; 37322]%N ++ runes_of_ascii "
+MetaDataX // @lengthOf(
+= 007; lengthOf = false; As = '\x00' } /// triple")).
+Eval vm_compute in ("<<<M696>>>" ++ check (runes_of_ascii "// " ++ [128512]%N ++ runes_of_ascii " emoji
+MetaData rootA{ metadata i64_
+    // @lengthOf(
+    , }
+    packet msg_type {
     char[
+    255 ] tag
+, } options
+{  As	= ' ' ; Z9_=
+// a // b
+// c
+int16 ;  crc
+=""\" ++ [233]%N ++ runes_of_ascii """;float = f64 ;} //x
+options
+{ BodyLength = 00 }
+    packet
+    As
+    /// triple
+    { @tag(
+007
+)Z9_
+{
+repeat char[ 0 ] stringy , A
+    @lengthOf( f32a )  , } ,
+Pad x_y_z ,
+/// triple
+// @lengthOf(
+body
+`` , @tag( 65535)	char[ 0123456789 ]
+MetaDataX  @calculatedFrom(""`tick`"" ) ,pack
+falsey , zchar[
+0
+    ]MetaDataX ,	i16
+repeatCount ,
+repeat tag
+    stringy`doc` ,@lengthOf(
+Z9_)
+@leftPad (
+)	@leftPad
+(
+    //x
+    '\x00') repeat _x { repeat
+a1
+    {
+match
+u as chars {
+    // packet A { u8 x, }
+    [
+    0123456789	,
+    4294967296//
+, ""it's"" ,//x
+1 ,	""\" ++ [233]%N ++ runes_of_ascii """]: Z9_ 4294967296 // trailing space 
+:
+    rootA ""abc"" : stringy }, } ,
+    /// triple
+    repeat string chars
+    // trailing space 
+    `" ++ [233]%N ++ runes_of_ascii "` ,
+int8
+    // " ++ [128512]%N ++ runes_of_ascii " emoji
+    u8x @lengthOf( x_y_z )
+, // @lengthOf(
+} ,
+uint64 body
+@lengthOf(roots),}
+")).
+Eval vm_compute in ("<<<M131>>>" ++ check (runes_of_ascii "packet u128 {@lengthOf( x_y_z )	@lengthOf( stringy )
+@lengthOf( _x) zchar[
+// c
+// c
+4294967296 ] asx @calculatedFrom(
+    ""\" ++ [233]%N ++ runes_of_ascii """	)
+    `
+` ,char[0 ] matchKey
+, rootA
+    u128
+    ,
+    metadata metadata ,	zchar[	3 ]
+    string_ `" ++ [233]%N ++ runes_of_ascii "`
+,
+// `tick` ""quote"" 'q'
+// " ++ [27880; 37322]%N ++ runes_of_ascii "
+@calculatedFrom(""a	b""
+)
+char roots `" ++ [28040; 24687; 31867; 22411]%N ++ runes_of_ascii "` , repeat zchar[10]
+pack
+    `
+`, @calculatedFrom( ""{,}"" )
+@lengthOf( //	t
+Foo )  packetx {// " ++ [128512]%N ++ runes_of_ascii " emoji
+match i8i8 as Header
+{ 255	: Z9_  """ ++ [233]%N ++ runes_of_ascii "t" ++ [233]%N ++ runes_of_ascii """ :tag
+, [ 7,	1, ""// no comment"", ""// no comment"" , 3
+,
+    """" , // `tick` ""quote"" 'q'
+1 ] :lengthOf 3 :  asx , [ 42	,
+0 , 1 ] :Z9_ , 10 :
+    A}, } , }root packet T {/// triple
+int32 roots `two words`, stringy, @rightPad ( '\x00')float64 len	@lengthOf( o )
+    ,match body // `tick` ""quote"" 'q'
+as	uint8x { 10
+    :
+tag , }
+    ,
+    repeat u8
+    Pad
+    `" ++ [28040; 24687; 31867; 22411]%N ++ runes_of_ascii "`
+    , repeat char[]
+    float // c
+, @calculatedFrom(	""packet"" ) u16 x
+    @lengthOf(
+u8x)
+// c
+// a // b
+, } //x")).
+Eval vm_compute in ("<<<M942>>>" ++ check (runes_of_ascii "//
+packet
+// " ++ [128512]%N ++ runes_of_ascii " emoji
+//	t
+falsey{ x_y_z @calculatedFrom( ""CRC32"" ) `{ , }` , repeat int8
+i64_ , char[]f32a
+    ,@lengthOf(calculatedFrom ) repeat string f32a `{ , }` , match pack as u128 { [ 10
+//	t
+// trailing space 
+, 7 ] : calculatedFrom ,
+""" ++ [128512]%N ++ runes_of_ascii """ : options1
+    // c
+    , 1 : calculatedFrom , ""\" ++ [233]%N ++ runes_of_ascii """
+    :body
+    ,
+}, @leftPad(' ' ) o packetx ``
+,  @calculatedFrom( ""{,}""
+    ) char[ 7  ] u , repeat u	_x , Z9_
+    , @leftPad
+(  ' ' ) string asx ,} packet
+zchar { zchar[1 ] As `two words`
+, zchar[
+    7
+] charz @calculatedFrom(""" ++ [128512]%N ++ runes_of_ascii """ ) , // c
+@tag( 4294967296
+)  char[]
+uint8x @calculatedFrom(
+    ""`tick`""
+)//x
+, repeat char
+    metadata, zchar[ 65535 /// triple
+] metadata , stringy i64_ ,
+    @leftPad	('\x00' ) string_ @lengthOf( //
+options1 ) ,@tag(// packet A { u8 x, }
+65535)  float64 Foo @calculatedFrom(  ""abc""
+    ) `{ , }` , }options {
+// packet A { u8 x, }
+//	t
+}
+")).
+Eval vm_compute in ("<<<M4580>>>" ++ check (runes_of_ascii "
+packet
+
+charz {  // @lengthOf(
+
+}  options {
+	}packet
+float
+    { metadata	Logon
+,}
+	packet  body
+
+    {@tag(  42  // packet A { u8 x, }
+    	)
+repeat tag
+
+    i64_  , 	 /// triple
+  @lengthOf(
+string_)
+
+    match  chars as
+    Z9_	{ [  65535
+    // " ++ [27880; 37322]%N ++ runes_of_ascii "
+  //x
+    ] : o	// `tick` ""quote"" 'q'
+,  [ //	t
+
+""{,}"" ,
 
     0123456789
-
-] // c
-    o	@calculatedFrom( 
-""\n"" )
-
-`" ++ [233]%N ++ runes_of_ascii "`
-,
-
-}
-    /// triple
-
-	// packet A { u8 x, }
+    , ""packet""
+    // packet A { u8 x, }
+//
     ,
-zchar[00
-]
-    stringy
 
-`line1
-line2` 
-,
-},
-@leftPad//
-      ( 
-'0' )
+    ""abc""
+	, 255,	""" ++ [233]%N ++ runes_of_ascii "t" ++ [233]%N ++ runes_of_ascii """  , 
+    // packet A { u8 x, }
+	//x
+  ""x y""
+    ,3]
+:pack,	""abc""
 
-    match uint8x  as u128  {
-    [ 1 	 // a // b
-    	,
-""abc""  ]
-:
-_x""a	b""
-:  Packet
-
-// c
-    3:_x//	t
-  ,""`tick`"" :packetx
-,""\n""
-    :Header,}	,
-x
-    // c
-@calculatedFrom( 
-	/// triple
-
-""\n""
-)
-	,  zchar[	65535
-]
-
-Packet 	 //x
-,
-}
-	MetaData
-
-Logon
-    {  }	packet
-packetx	{
-@calculatedFrom(
-	""a\\"" )
-match
-
-roots 
-as
-Foo{
+:matchKey	,
 [
-""\n""
-
-,
-    4294967296]:asx ,
-	00  :o
-
-, 
-""{,}""
-    :
-
-    Header
-
-    ,
-	255  :	packetx  ,
-    [ 
-255
-
-    ,
-
-4294967296 ]
-    :MetaDataX,
-
-}  , }
-
-")).
-Eval vm_compute in ("<<<M3799>>>" ++ check (runes_of_ascii "  packet matchKey {
-    zchar[
-
-3 ] 
-	// `tick` ""quote"" 'q'
-
-// packet A { u8 x, }
-	A,
-    msg_type
-`a\`,
-MetaDataX
-    As
-    , 
-@lengthOf(
-
-    Z9_ ) 
-repeat  f32	_x
-,
-@lengthOf(
-Pad)	uint32	//	t
-Logon
-	,  // a // b
-
-  @tag(	4294967296	)
-
-T`doc` ,
-
-len ,
-body{
-	repeat
-o
-    {
-
-    match	i8i8	as
-
-    body  {
-
-65535
-: lengthOf	,
-
-    [
-    ""\n"" ]
-
-    :
-    i64_
-	3 
-:
-
-    asx ,
-[	""packet""
-
-,
-/// triple
-007,	""{,}"" ,
-""// no comment""
-]
-
-    :
-
-repeatCount,
-
-[
-""// no comment""
-	,
-	7
-    ,""\" ++ [233]%N ++ runes_of_ascii """  , 0123456789 //
-
-	, 
-""a\""b""
-
-]: 
-roots
-
-}
-
-    , match
-    repeatCount as
-As 
-{ """"
-    /// triple
-		:	//	t
-
-o ,
-    } ,	} ,zchar[
-
-0
-	]  BodyLength `` ,lengthOf,
-
-}
-
-,
-
-i16
-Z9_	, }
-packet
-tag
-{@tag( 
-    // `tick` ""quote"" 'q'
-	1
-	)	repeat
-    float i8i8 `" ++ [28040; 24687; 31867; 22411]%N ++ runes_of_ascii "`  // `tick` ""quote"" 'q'
-	,
-
-@rightPad	( )  @lengthOf(
-_x	)	@rightPad( 	 // c
-  '0'
-	)
-
-Packet,Foo 	 /// triple
-    @lengthOf(
-u128
-    ) `doc`,
-	@tag(
-
-007
-)  // packet A { u8 x, }
-    	string
-
-    repeatCount
-
-    ,  o {match
-
-leftPad
-as
-lengthOf{ [
 	0123456789,
-	""1""  ]
+    1
 
-    : 
-x_y_z
-,
-[
-	""" ++ [128512]%N ++ runes_of_ascii """
 ]
+    : chars 
+	// c
+  1
+
 :
 
-    i8i8
-
-, [// @lengthOf(
-""a\""b"" 
+int ,
+    """ ++ [233]%N ++ runes_of_ascii "t" ++ [233]%N ++ runes_of_ascii """
+:	i64_ ,  }
 ,
-	""a	b"" ] :
-
-    Foo  ,[  ""\" ++ [233]%N ++ runes_of_ascii """
-	]:Pad
-
-,
-[
-""a	b""
-    ,
-	42 
-//
-//	t
-      , """ ++ [233]%N ++ runes_of_ascii "t" ++ [233]%N ++ runes_of_ascii """ ,
-	3
-,
-""" ++ [28040; 24687]%N ++ runes_of_ascii """
-
-, 
-00
-	,
-
-7 ]
-
-    : packetx  ,
-42
-    //x
-	:falsey	,}
-	,}
-
-    ,}
-	packet 
-body	{ }
-")).
-Eval vm_compute in ("<<<M1348>>>" ++ check (runes_of_ascii "options { tag = 0;} packet u8x
-    { // trailing space 
-u Z9_ , @tag(
-    00 )@rightPad ( '\x00'
-    )  @calculatedFrom(
-""CRC32"" ) //	t
-crc, metadata	@calculatedFrom(
-""a	b""
-    ) // c
-, @tag( 4294967296  ) u64 rootA
-    `tab	here`, // @lengthOf(
-@calculatedFrom( ""\n""
-    )char[]	pack
-    @lengthOf( chars) `" ++ [28040; 24687; 31867; 22411]%N ++ runes_of_ascii "` ,zchar[ 255 ]Foo @lengthOf( f32a ) , @leftPad
-(	) @lengthOf( string_ )
-@rightPad(
-' '
-    )
-    match
-msg_type
-as // " ++ [128512]%N ++ runes_of_ascii " emoji
-falsey  {
-    // a // b
-    ""a	b"" :
-x ,} , @calculatedFrom( ""{,}"" )
-match
-body as MetaDataX {42 // " ++ [27880; 37322]%N ++ runes_of_ascii "
-: u8x 0123456789
-: options1 , // c
-[ 3 ]: As , [ 00 ] :// c
-A ,
-""CRC32""
-: zchar , [	""it's"" ,
-""" ++ [233]%N ++ runes_of_ascii "t" ++ [233]%N ++ runes_of_ascii """  ,	""1"", 3, ""a	b""
-    , 1
-    //x
-    ,  0123456789, //	t
-4294967296
-] :
-    packetx
-    , // " ++ [27880; 37322]%N ++ runes_of_ascii "
-}, repeat uint8 o`{ , }`
-    ,
-//	t
-//
-} packet leftPad {
-u32
-// packet A { u8 x, }
-//x
-packetx
-`a\` ,@calculatedFrom( ""// no comment""	) @rightPad ( ) @lengthOf(
-    asx
-    )
-// c
-// trailing space 
-char[ 42
-    ] calculatedFrom @lengthOf( packetx ), @tag(
-    00
-)stringy  msg_type , u128 i64_ `it's` ,@rightPad
-    ('\x00') u8x
-, @calculatedFrom( """ ++ [28040; 24687]%N ++ runes_of_ascii """
-) len msg_type , // packet A { u8 x, }
-MetaDataX pack
-    // c
-    ,@calculatedFrom( """ ++ [28040; 24687]%N ++ runes_of_ascii """ ) string MetaDataX//	t
-`
-` , }
-")).
-Eval vm_compute in ("<<<M780>>>" ++ check (runes_of_ascii "root packet
-Logon { zchar[
-    00 ]roots@calculatedFrom(
-    ""a\""b"" ) ,
-}MetaData int
-//	t
-// @lengthOf(
-{
-float
-roots , char u8x `// not a comment` , uint64 _x , // @lengthOf(
-u128 chars
-// @lengthOf(
-//
-`
-`, i16  leftPad `" ++ [28040; 24687; 31867; 22411]%N ++ runes_of_ascii "` ,
-u8
-string_  ,
-    // @lengthOf(
-    }packet trueish
-    { /// triple
-asx
-    //	t
-    {
-msg_type  {	repeat string A	`" ++ [233]%N ++ runes_of_ascii "`, }
-,
-    } , @tag( 65535
-) Packet
-_x `line1
-line2`,
-// packet A { u8 x, }
-// a // b
-repeat uint32 // @lengthOf(
-x_y_z// a // b
-`two words` // c
-,@calculatedFrom( ""packet""
-    )i64_
-@lengthOf( Logon
-) ,
-    @rightPad (	'\x00' ) match
-msg_type as
-    Foo
-{ [  ""{,}"" ,	""a	b"" , 10
-, ""abc"" ]
-    :
-    u128 ,""// no comment"" :
-lengthOf, ""a\""b"" : len// " ++ [27880; 37322]%N ++ runes_of_ascii "
-,	""\n"" : x_y_z } ,
-    repeat int32
-asx `say ""hi""` ,
-    @rightPad ( ) @tag(
-00 ) @rightPad ( ' ' ) char[
-    10 ]crc
-@lengthOf(
-    // packet A { u8 x, }
-    metadata ) `
-`
-    ,
-    @lengthOf(
-msg_type	) char[] charz
-@lengthOf( //x
+    match 
 Pad
-) `crlf
-line` , zchar[ 65535 ]
-    a1	@calculatedFrom(
-""a\\"" )  ,char[ 42
-    ]
-//x
-// " ++ [128512]%N ++ runes_of_ascii " emoji
-charz
-, }
-root packet BodyLength {@tag(	3
-    )
-@lengthOf(Header ) len @calculatedFrom(
-""""
-) `crlf
-line` ,}")).
-Eval vm_compute in ("<<<M4393>>>" ++ check (runes_of_ascii "root packet Logon {
-    zchar[00] roots @calculatedFrom(""a\""b""),
-}
-
-MetaData int {
-    float roots,
-    char u8x `// not a comment`,
-    uint64 _x,
-    u128 chars `
-        `,
-    i16 leftPad `" ++ [28040; 24687; 31867; 22411]%N ++ runes_of_ascii "`,
-    u8 string_,
-}
-
-packet trueish {
-    /// triple
-    asx {
-        msg_type {
-            repeat string A `" ++ [233]%N ++ runes_of_ascii "`,
-        },
-    },
-    @tag(65535)
-    Packet _x `line1
-        line2`,
-    // packet A { u8 x, }
-    // a // b
-    repeat uint32 x_y_z `two words`,
-    @calculatedFrom(""packet"")
-    i64_ @lengthOf(Logon),
-    @rightPad('\x00')
-    match msg_type as Foo {
-        [10, ""{,}"", ""a	b"", ""abc""] : u128,
-        ""// no comment"" : lengthOf,
-        ""a\""b"" : len,
-        ""\n"" : x_y_z,
-    },
-    repeat int32 asx `say ""hi""`,
-    @rightPad()
-    @tag(00)
-    @rightPad(' ')
-    char[10] crc @lengthOf(metadata) `
-        `,
-    @lengthOf(msg_type)
-    char[] charz @lengthOf(Pad) `crlf
-        line`,
-    zchar[65535] a1 @calculatedFrom(""a\\""),
-    char[42] charz,
-}
-
-root packet BodyLength {
-    @tag(3)
-    @lengthOf(Header)
-    len @calculatedFrom("""") `crlf
-        line`,
-}")).
-Eval vm_compute in ("<<<M3785>>>" ++ check (runes_of_ascii "options{StringPrefixLenType =
-
-u64
-
-    ;
-ArrayPrefixLenType
-= u16
-    ;
-
-FixedStringPadChar
-    =
-
-    ' '
-    ;
-    }packet Logon
-
-    { i32  msgKind ,
-    repeat
-	InOrderid65
-{u8 
-pad0
-
-    ,	} 
-,
-	i8
-
-    tag7
-
-,
-    @leftPad  (
-
-' ')
-
-char[	12
-
-    ]
-    x
-
-    ,} 
-packet Leg
-    { char[]
-	f1
-	,
-repeat
-
-char[
-
-    5
-] Px  , 
-InQty34 {  repeat
-    char[6
-]
-
-    Qty  ,
-	char[ 7 ]
-	seqNo
-
-    , string
-count	,	}
-
-    ,
-Logon
-
-    ,  }
-packet Party { @leftPad
-	(
-    '0'
-
-    )
-char[	10 ]
-
-OrderId ,string
-
-Tail  ,} 
-packet Fill {zchar[	5  ]
-	venue,
-
-    zchar[
-
-3 
-] 
-clOrdID	,
-
-InRef95
-	{ InLastpx25  { u8 pad0
-
-    ,
-
-    },	float64
-
-OrderId , i32 f1, float32 x
-,
-	char[]seqNo
-
-, },
-	repeat  string
-seqNo	, 
-}root packet
-Heartbeat { repeat  Leg , u32
-seqNo
-    ,	u16
-
-tag7
-
-,
-u32 Flags
-@lengthOf(
-Body	), match
-    tag7
 
     as
-	Body
-	{ [ 
-195 ,
+trueish
+{
 
-75
-    ] :  Party,
-171
-	: Fill
-	,
-78 
-:
-	Logon ,
-	142 :
+    ""a	b""
+: pack, }
+, 
+@calculatedFrom(
 
-    Leg
-,}
+""" ++ [28040; 24687]%N ++ runes_of_ascii """
+    )  repeat
+u128  x
 ,
-u32 Note
-    @calculatedFrom(	""CRC32""
+    string
+
+A
+
+,  lengthOf
+
+{
+	BodyLength 
+T  ,	int16  A	@lengthOf(
+i8i8
+) 	 //x
+    , // " ++ [27880; 37322]%N ++ runes_of_ascii "
+    }
+	, options1 chars `line1
+line2` ,}
+")).
+Eval vm_compute in ("<<<M571>>>" ++ check (runes_of_ascii "// packet A { u8 x, }
+packet packetx { @tag( 7 ) f64 o @calculatedFrom(
+""" ++ [233]%N ++ runes_of_ascii "t" ++ [233]%N ++ runes_of_ascii """ ) , repeat MetaDataX {i8 Logon
+    ,}	, char[ 7] string_  , repeat	o	{	u16	Foo ,repeat i16
+packetx
+    ,	match matchKey as As { ""packet""
+: roots , 42
+:
+falsey 0123456789
+    // c
+    : matchKey , ""\" ++ [233]%N ++ runes_of_ascii """ :
+    zchar """ ++ [233]%N ++ runes_of_ascii "t" ++ [233]%N ++ runes_of_ascii """ : stringy, [ 65535]:rootA ,} ,repeat char[]  lengthOf ,} ,match
+    x // c
+as
+//	t
+//
+falsey
+    { ""1"" :
+    Packet , 1 : u ,
+    0 : charz  [ ""1"" ] : pack ,""a\""b"" : options1 ,} ,
+@tag(
+0)
+// trailing space 
+// " ++ [128512]%N ++ runes_of_ascii " emoji
+repeat int16
+matchKey , uint16 rootA`` , // c
+match string_
+as
+A {[ 3  , """ ++ [28040; 24687]%N ++ runes_of_ascii """ ]:zchar
+,
+    } , } packet f32a { } MetaData falsey { char[] Header ,metadata
+    Pad `two words` , zchar[ 10 ] calculatedFrom ,char[] lengthOf
+,
+float32 u
+`line1
+line2`  ,}")).
+Eval vm_compute in ("<<<M1330>>>" ++ check (runes_of_ascii "  root	packet falsey
+{  }
+root packet x { asx ,
+stringy { //x
+f64 roots
+, char[]// packet A { u8 x, }
+chars@lengthOf( uint8x )
+    // `tick` ""quote"" 'q'
+    `
+`
+, }  , @lengthOf(len ) i8	MetaDataX@calculatedFrom( ""packet""
+) , match MetaDataX
+    as _x
+{ 0
+: uint8x
+, }
+,
+// c
+//x
+@leftPad ( '\x00')uint16 // c
+roots @calculatedFrom(""abc""
+    // `tick` ""quote"" 'q'
+    ) ,  @rightPad
+    (
+' ') int32
+leftPad @calculatedFrom( ""packet"" /// triple
+) `" ++ [233]%N ++ runes_of_ascii "`, }  options { falsey = 7
+i64_
+=int16// packet A { u8 x, }
+len=
+false
+//x
+// @lengthOf(
+;	_x
+='0';asx = """ ++ [28040; 24687]%N ++ runes_of_ascii """
+    ; } options {
+packetx =uint64
+    ; len=
+    true ;
+} packet
+tag // `tick` ""quote"" 'q'
+{@leftPad ( )
+    @calculatedFrom(
+""abc"")
+    int16 Pad @lengthOf( BodyLength  ) , //x
+}
+")).
+Eval vm_compute in ("<<<M49>>>" ++ check (runes_of_ascii "packet
+i8i8 {
+    char[]
+    string_
+// " ++ [27880; 37322]%N ++ runes_of_ascii "
+//
+`tab	here` //
+, @lengthOf(
+    T )
+    @lengthOf(
+uint8x)@rightPad ( '\x00' ) zchar[ 4294967296 // packet A { u8 x, }
+]	f32a @calculatedFrom(
+// " ++ [27880; 37322]%N ++ runes_of_ascii "
+//x
+""CRC32"")
+    `it's`	, } // @lengthOf(
+root // packet A { u8 x, }
+packet	A
+    { @rightPad
+//	t
+// packet A { u8 x, }
+( )
+    @calculatedFrom(""" ++ [233]%N ++ runes_of_ascii "t" ++ [233]%N ++ runes_of_ascii """ )	string T`crlf
+line`
+    ,
+    u64 falsey `two words`
+//x
+// trailing space 
+,zchar[ 65535	] lengthOf
+`doc` , match // `tick` ""quote"" 'q'
+crc
+as int { [ ""packet"",
+    ""it's""
+    ]
+: body ,007
+:
+    // a // b
+    leftPad
+,	""{,}"" :
+    Z9_, [ 0123456789
+    , 00
+    , ""a\\"" // " ++ [128512]%N ++ runes_of_ascii " emoji
+, """ ++ [128512]%N ++ runes_of_ascii """  , ""\" ++ [233]%N ++ runes_of_ascii """
+    , ""`tick`"", ""it's"",
+    """ ++ [233]%N ++ runes_of_ascii "t" ++ [233]%N ++ runes_of_ascii """]
+: x_y_z,} // c
+,}
+")).
+Eval vm_compute in ("<<<M1385>>>" ++ check (runes_of_ascii "options{ msg_type =
+'0' ;
+}
+// trailing space 
+// " ++ [27880; 37322]%N ++ runes_of_ascii "
+packet
+matchKey	{ @calculatedFrom( ""x y"" )
+    zchar[
+10 ]metadata , Z9_
+@calculatedFrom(""packet"" ), zchar[ 4294967296]
+packetx `doc` ,tag
+@lengthOf(packetx
+) , // c
+@rightPad() u
+T , char[3// " ++ [128512]%N ++ runes_of_ascii " emoji
+]int , @calculatedFrom( ""CRC32""
+) repeat
+    // @lengthOf(
+    metadata {u128
+@calculatedFrom(
+"""")
+, repeat i32
+    Z9_
+    ,  repeat uint64 trueish `a\` ,
+    a1{
+    //x
+    uint8 _x // packet A { u8 x, }
+@lengthOf( _x  ) // trailing space 
+, } ,}  , match
+options1
+as leftPad  { //
+""" ++ [28040; 24687]%N ++ runes_of_ascii """
+    :
+    u8x ,1:
+body ,}/// triple
+, @calculatedFrom( ""1""
+) match T as Foo {  255 : T, } , } options{ } options { }")).
+Eval vm_compute in ("<<<M3596>>>" ++ check (runes_of_ascii "// top
+options
+    // c0
+{ // c1a
+  // c1b
+FixedStringPadChar // c2a
+  // c2b
+= // c3a
+  // c3b
+'0' // c4
+; // c5
+} // c6
+packet // c7
+Q
+    // c8
+{ // c9
+zchar[
+    // c10
+4 // c11a
+  // c11b
+] // c12
+z
+    // c13
+,
+    // c14
+@rightPad // c15
+( // c16a
+  // c16b
+'\x00' // c17a
+  // c17b
+) // c18
+char[ 3 // c20
+] // c21a
+  // c21b
+n
+    // c22
+, char[ // c24
+5 ]
+    // c26
+d // c27
+,
+    // c28
+} root // c30
+packet R // c32
+{ // c33
+Q
+    // c34
+, // c35
+zchar[ // c36
+8 // c37a
+  // c37b
+]
+    // c38
+top // c39a
+  // c39b
+, repeat // c41a
+  // c41b
+zchar[ // c42
+2 // c43a
+  // c43b
+] // c44
+zs // c45
+, // c46
+}
+    // c47
+")).
+Eval vm_compute in ("<<<M209>>>" ++ check (runes_of_ascii "packet _x
+    {repeat
+u8x {
+    repeat pack
+    body,
+    } ,
+@calculatedFrom( ""x y"" ) A { match msg_type as f32a {4294967296
+    : crc 1
+// c
+/// triple
+: uint8x , // a // b
+[ 255, 0
+    ] : // " ++ [27880; 37322]%N ++ runes_of_ascii "
+pack , [7 ,
+// `tick` ""quote"" 'q'
+// packet A { u8 x, }
+00 ] :	roots , [ 255
+    ]
+:	rootA
+    , } ,
+    char packetx
+@calculatedFrom( ""{,}""
+    // trailing space 
+    )
+, } ,
+    match
+    BodyLength //
+as u8x {""a	b"" : u,
+    00 // @lengthOf(
+: msg_type,// " ++ [27880; 37322]%N ++ runes_of_ascii "
+}, match metadata as As{[ 0123456789, 3 ,// a // b
+0
+, ""it's""
+, ""it's"" , ""1"" ] :
+int
+,
+    ""packet"": leftPad}, char[] Pad `say ""hi""` , }
+
+")).
+Eval vm_compute in ("<<<M1018>>>" ++ check (runes_of_ascii "
+root packet
+Foo
+    {match As as// packet A { u8 x, }
+rootA
+{ ""CRC32""  : packetx
+, 4294967296 : Header , [0123456789
+    ,
+    255
+// @lengthOf(
+//x
+, 0
+    , ""\n""
+,
+    ""packet"" ] : BodyLength
+,
+[
+7
+// a // b
+// c
+, 255
+    , 65535  ,00,
+    3 , ""packet""	, // @lengthOf(
+""abc""] :  f32a
+,} ,
+    f32
+calculatedFrom @lengthOf(// trailing space 
+metadata
+) `crlf
+line` ,
+    } //	t
+options
+{ // c
+x_y_z //x
+=7 body	=zchar[1
+] ; }
+packet i8i8// trailing space 
+{string_{ u32 //x
+options1 // c
+@calculatedFrom(
+""1"" )  , }// `tick` ""quote"" 'q'
+,} // `tick` ""quote"" 'q'")).
+Eval vm_compute in ("<<<M4069>>>" ++ check (runes_of_ascii "
+options
+
+    {}root
+    packet u8x {  options1 {Header @lengthOf(
+	x_y_z
+	)
+,
+u16 f32a
+
+,
+
+}  , 
+zchar[  4294967296	] leftPad
+,repeat
+	char[
+
+    007
+	]//	t
+  trueish
+
+    ,
+int
+
+@calculatedFrom( """ ++ [28040; 24687]%N ++ runes_of_ascii """
+
     )
 
-, }")).
-Eval vm_compute in ("<<<M3736>>>" ++ check (runes_of_ascii "root packet pack {
-    match MetaDataX as Packet {
-        7 : trueish,
-        /// triple
-        """ ++ [233]%N ++ runes_of_ascii "t" ++ [233]%N ++ runes_of_ascii """ : MetaDataX,
-        4294967296 : msg_type,
-        65535 : metadata,
-        3 : x_y_z,
-        42 : _x,
-    },
-}
+    // c
 
-packet x_y_z {
-    repeat crc metadata,
-    match A as u8x {
-        [
-            0123456789, 4294967296, ""it's"", ""\" ++ [233]%N ++ runes_of_ascii """, ""1"",
-            ""abc"", ""// no comment""
-        ] : pack,
-        007 : tag,
-    },
-}
-
-packet repeatCount {
-    @lengthOf(stringy)
-    uint8 f32a,
-}
-
-options {
-    BodyLength = '\x00';
-    body = ' ';
-}
-
-packet charz {
-    repeat Z9_ rootA `two words`,//
-    @calculatedFrom(""a\\"")
-    f32a @lengthOf(msg_type) `say ""hi""`,
-    int8 As,
-    string stringy @lengthOf(options1) `crlf
-    line`,
-    i8 i8i8,
-    f32a options1,
-    @leftPad('\x00')
-    u @calculatedFrom(""" ++ [128512]%N ++ runes_of_ascii """),
-    @calculatedFrom(""\" ++ [233]%N ++ runes_of_ascii """)
-    @tag(00)
-    @tag(0)
-    int64 trueish @calculatedFrom(""`tick`""),
-    @leftPad(' ')
-    zchar @lengthOf(Z9_),
-}// " ++ [27880; 37322]%N)).
-Eval vm_compute in ("<<<M1237>>>" ++ check (runes_of_ascii "// a // b
-options
-    { i64_ //
-=
-    false ; BodyLength
-    =
-    10	;} packet msg_type { @lengthOf( msg_type) match rootA as
-    tag { ""1""	:// `tick` ""quote"" 'q'
-u8x ,[""x y""
-    ,// " ++ [128512]%N ++ runes_of_ascii " emoji
-""" ++ [233]%N ++ runes_of_ascii "t" ++ [233]%N ++ runes_of_ascii """, 0123456789
-, 007 , 7, 255 ,	7 , 65535]:matchKey,4294967296 :chars""packet"" : charz
-    ,
-    ""// no comment"": // a // b
-i64_ ,
-10 : MetaDataX  ,} , @lengthOf( metadata )
-MetaDataX@calculatedFrom(""" ++ [233]%N ++ runes_of_ascii "t" ++ [233]%N ++ runes_of_ascii """ ) `
-` , f32a{
-matchKey, } , zchar[10 ]  _x
-`line1
-line2` ,metadata crc ,	@lengthOf( body) char[
-3  ]string_ ,repeat T , trueish// @lengthOf(
-i8i8 ,f32
-Header`
-`,	@leftPad	(' ' ) char[00 ]o , } packet zchar { @lengthOf( Packet
-) @lengthOf( falsey)// " ++ [128512]%N ++ runes_of_ascii " emoji
-repeat rootA `doc`
-    , @leftPad // " ++ [128512]%N ++ runes_of_ascii " emoji
-( ' '
-// @lengthOf(
-// @lengthOf(
-) char[] float @lengthOf(
-roots )
 ,
-    }root packet //x
-lengthOf{
-rootA// trailing space 
-@calculatedFrom(
-    ""it's"" ) ,
-} root
-    packet repeatCount// a // b
-{ }
-")).
-Eval vm_compute in ("<<<M4346>>>" ++ check (runes_of_ascii "
-
-  root packet 
-roots //
-      {  // trailing space 
-  	}
-	root packet MetaDataX{
-	char[255 ]
-
-rootA,
-} 	 /// triple
-	packet
-	u8x{ @rightPad
-(	// " ++ [27880; 37322]%N ++ runes_of_ascii "
-  ) msg_type @lengthOf(
-
-    Z9_ )
-    ,  char[
-
-    0
-
-    ]x_y_z@lengthOf(
-	len) // " ++ [27880; 37322]%N ++ runes_of_ascii "
-  `it's`// " ++ [128512]%N ++ runes_of_ascii " emoji
-, 
-@rightPad
-
-    (' ' 
-) 
-int16
-
-    calculatedFrom , chars	@lengthOf( 	 //x
-    msg_type
-)  
-  //	t
-
-// @lengthOf(
-	`it's`	,
-
-    repeat
-    pack 
-{ repeat 
-u64 // c
-    	x
-	,	}	,i8
-
-metadata @calculatedFrom(
-""" ++ [28040; 24687]%N ++ runes_of_ascii """ ), 
-match	o
-
-as	len
-{ [ 
-0123456789
-, 
-""a\""b"",65535 
-  // `tick` ""quote"" 'q'
-    ,
-
-""" ++ [128512]%N ++ runes_of_ascii """	,0123456789 ,
-    ""{,}""
-    ]:
-    body  3
-: As
-
-    ,
-3 :
-As 
-, 42:  int
-    ,
-	1 	 // @lengthOf(
-  :	o
-,
-
-[ 1
-]
-
-:o 	 // c
-	  ,
-
-    } , 
-zchar[	007
-]
-	asx
-	,  asx
-@lengthOf(
-
-    zchar
-// packet A { u8 x, }
-    // @lengthOf(
-
-),
-	f64	Logon `` 
-        // " ++ [27880; 37322]%N ++ runes_of_ascii "
-  ,
-	} 	 //")).
-Eval vm_compute in ("<<<M553>>>" ++ check (runes_of_ascii "packet
-    A { calculatedFrom
-    //
-    @lengthOf(//
-zchar ) `say ""hi""`	, @calculatedFrom(  ""{,}""
-)
-repeat
-    u8x // `tick` ""quote"" 'q'
-uint8x `u8 x,` ,
     match
-//
-// " ++ [128512]%N ++ runes_of_ascii " emoji
-o as matchKey {
-[ 3 ,""""]: T ,//
-""{,}""// @lengthOf(
-:
-// a // b
-// packet A { u8 x, }
-calculatedFrom } ,
-    repeat char[ 255	] u
-,char[]Packet ,repeat int64
-packetx// trailing space 
-,  @leftPad( '\x00'
-)@calculatedFrom( """" ) zchar { // trailing space 
-f32
-    //
-    zchar `" ++ [28040; 24687; 31867; 22411]%N ++ runes_of_ascii "`,match
-u128 as
-    options1
-{ [""abc"",10 ,
-    65535 , 0 , ""\n"" ,""" ++ [128512]%N ++ runes_of_ascii """ ,
-0123456789 ]
-    : // a // b
-chars
-, 00 :
-As
-, ""a	b""
-    : packetx, 10: a1, // packet A { u8 x, }
-} , },
-    float64 calculatedFrom @lengthOf( //
-packetx
-    ) ,char[ //x
-00]
-// " ++ [128512]%N ++ runes_of_ascii " emoji
-//
-string_ `
-` , @calculatedFrom( ""it's""
-    )@leftPad
-()
-    f32 BodyLength , }
-// " ++ [27880; 37322]%N ++ runes_of_ascii "
-")).
-Eval vm_compute in ("<<<M4586>>>" ++ check (runes_of_ascii "packet f32a {
-    @calculatedFrom(""1"")
-    _x {
-        string metadata @calculatedFrom(""`tick`"") `// not a comment`,
-        match Foo as len {
-            42 : Z9_,
-            //x
-        },
-    },
-}
 
-packet options1 {
-    @lengthOf(A)
-    roots @lengthOf(msg_type) `line1
-    line2`,
-    int32 a1 `it's`,
-    @calculatedFrom(""packet"")
-    repeat string T,
-    @lengthOf(i64_)
-    @calculatedFrom(""packet"")
-    @tag(007)
-    int16 asx @calculatedFrom(""it's"") `doc`,
-    repeat i32 charz,
-    metadata `// not a comment`,
-}
-
-packet Logon {
-}
-
-options {
-}
-
-root packet tag {
-    @lengthOf(Logon)
-    charz {
-        string stringy `// not a comment`,
-        uint64 int,
-        char i64_ `it's`,
-    },
-    //	t
-    //
-    u8 i64_,
-    zchar[1] float,
-}/// triple")).
-Eval vm_compute in ("<<<M1025>>>" ++ check (runes_of_ascii "root packet
-roots //
-{ // trailing space 
-} root packet MetaDataX
-{
-char[255 ]	rootA , }/// triple
-packet u8x { @rightPad
-( // " ++ [27880; 37322]%N ++ runes_of_ascii "
-) msg_type@lengthOf( Z9_
-) , char[
-    0
-] x_y_z @lengthOf( len )// " ++ [27880; 37322]%N ++ runes_of_ascii "
-`it's`// " ++ [128512]%N ++ runes_of_ascii " emoji
-, @rightPad
-( ' ') int16 calculatedFrom ,chars @lengthOf(//x
-msg_type
-)
-//	t
-// @lengthOf(
-`it's`
+i64_	as	chars{ """ ++ [128512]%N ++ runes_of_ascii """ : // a // b
+	  Logon 
 ,
-    repeat pack { repeat u64 // c
-x
+	42	:	matchKey 65535 :
+
+u
+,
+
+    [ 4294967296
+	, 65535
+
+]
+
+:As
     ,
-}	, i8
-metadata @calculatedFrom(""" ++ [28040; 24687]%N ++ runes_of_ascii """ )
-,
-    match o as len { [ 0123456789 ,
-""a\""b"" , 65535
+
+    }
+	,
+	@rightPad // a // b
+	( '\x00'
+
+    ) @tag( 42
+    )  
+  // packet A { u8 x, }
+  	i32	Pad// " ++ [128512]%N ++ runes_of_ascii " emoji
+	`two words` , 	 // c
+@tag( 
+    // c
+  	00  ) 
+f32a `tab	here` ,}")).
+Eval vm_compute in ("<<<M1075>>>" ++ check (runes_of_ascii "options
+    // packet A { u8 x, }
+    { u = ""a\""b""
     // `tick` ""quote"" 'q'
-    ,
-""" ++ [128512]%N ++ runes_of_ascii """ , 0123456789 ,
-""{,}""] : body 3:
-As , 3: As ,
-42 : int , 1// @lengthOf(
-:
-    o
-    ,  [ 1
-    ]
-: o// c
-,
-} ,
-zchar[ 007] asx
-,
-    asx
-@lengthOf( zchar
-// packet A { u8 x, }
-// @lengthOf(
-) ,
-f64 Logon
-    ``
-    // " ++ [27880; 37322]%N ++ runes_of_ascii "
-    ,
-} //")).
-Eval vm_compute in ("<<<M3929>>>" ++ check (runes_of_ascii "root packet o {
-    a1 a1,
-    char[3] i8i8 `
-    `,
-    @calculatedFrom(""a\""b"")
-    // packet A { u8 x, }
-    repeat Pad,
-}
-
+    ;}packet matchKey {char[
+/// triple
 // `tick` ""quote"" 'q'
-// `tick` ""quote"" 'q'
-packet tag {
-    i8i8 @calculatedFrom(""x y"") `it's`,
-    @lengthOf(x_y_z)
-    @calculatedFrom(""a\""b"")
-    u {
-        match a1 as Logon {
-            ""\n"" : Pad,
-            3 : body,
-            """" : Logon,
-            ""\n"" : T,
-            ""`tick`"" : tag,
-            [
-                7, 0123456789, 0, """ ++ [233]%N ++ runes_of_ascii "t" ++ [233]%N ++ runes_of_ascii """, ""a\""b"",
-                ""abc"", """ ++ [28040; 24687]%N ++ runes_of_ascii """
-            ] : Z9_,
-        },
-        char[00] string_ @lengthOf(asx),
-        char[1] falsey,
-    },
-    match crc as lengthOf {
-        4294967296 : a1,
-    },
-}")).
-Eval vm_compute in ("<<<M944>>>" ++ check (runes_of_ascii "packet
-i8i8 {	@tag( 65535 ) i8i8 ,  repeat
-u8 uint8x , zchar[7] u
-    // " ++ [27880; 37322]%N ++ runes_of_ascii "
-    ,
-    repeat
-    char[] Packet , @leftPad ( '\x00' )i64_
-    { x `line1
-line2` ,//x
-} , // a // b
-repeat Foo{	len{match // a // b
-u  as
-    _x { 42
-    :  tag , [
-""" ++ [233]%N ++ runes_of_ascii "t" ++ [233]%N ++ runes_of_ascii """	] : _x[ 7 , 4294967296] : Packet , } ,float64 o
-`it's`,int64
-    options1 ,//	t
-} ,
-} , @leftPad
-(
-    '\x00' )match x //
-as zchar{	255:
-    //
-    o, 255 : Logon /// triple
-,	0	: Header ,007
-    : msg_type ,[
-    // packet A { u8 x, }
-    ""\n"" ,// packet A { u8 x, }
-007
-// " ++ [27880; 37322]%N ++ runes_of_ascii "
-// a // b
-, ""1"" ,  255// a // b
-,4294967296 , 0 ,007
-    ] :
-    int , } , }// trailing space 
-packet
-As
-{ }
-
-")).
-Eval vm_compute in ("<<<M4061>>>" ++ check (runes_of_ascii "MetaData MetaDataX {
-    string pack ``,
-    u32 falsey,
-    char[65535] chars,
-    u64 int,
-}
-
-options {
-    i8i8 = true;
-    float = ' ';
-}
-
-packet Foo {
-    @lengthOf(i64_)
-    repeat calculatedFrom {
-        match repeatCount as stringy {
-            255 : msg_type,
-            65535 : roots,
-            ""a\""b"" : repeatCount,
-            [""packet"", ""1""] : o,
-            """ ++ [28040; 24687]%N ++ runes_of_ascii """ : zchar,
-            ""CRC32"" : A,
-        },
-        int64 chars @calculatedFrom(""a\""b"") `say ""hi""`,
-        packetx @lengthOf(x_y_z),
-    },
-    stringy @calculatedFrom(""" ++ [28040; 24687]%N ++ runes_of_ascii """) `u8 x,`,
-    zchar[007] chars,
-    zchar[1] f32a `" ++ [28040; 24687; 31867; 22411]%N ++ runes_of_ascii "`,
-}")).
-Eval vm_compute in ("<<<M1070>>>" ++ check (runes_of_ascii "options { packetx=  ""a\\""
+42 ]
+    len @lengthOf( f32a
     //	t
-    x_y_z	=// " ++ [128512]%N ++ runes_of_ascii " emoji
-false ;
-    len
+    )
+`it's`// packet A { u8 x, }
+, @lengthOf( x_y_z )@calculatedFrom(//
+""CRC32"" // " ++ [128512]%N ++ runes_of_ascii " emoji
+) uint16 f32a@lengthOf( zchar )
+    `" ++ [233]%N ++ runes_of_ascii "` , @lengthOf( Z9_
     //x
-    = """ ++ [233]%N ++ runes_of_ascii "t" ++ [233]%N ++ runes_of_ascii """u =
-    ""x y"" }MetaData Foo
-    { uint8x
-    /// triple
-    Z9_ // c
-`
-`
-,options1 msg_type ,string_ // @lengthOf(
-trueish
-`
-` , metadata /// triple
-rootA`two words`
-    //
-    , } root packet Foo { repeat
-trueish {
-match A as options1 { ""packet""
-: int , }
-    ,
-zchar[ 007]	u8x @calculatedFrom( """ ++ [233]%N ++ runes_of_ascii "t" ++ [233]%N ++ runes_of_ascii """ ) , msg_type float `" ++ [28040; 24687; 31867; 22411]%N ++ runes_of_ascii "` , match string_ as  charz // a // b
-{10
-: zchar ,
-    [ 0	, 007, 10 ,65535 ,1 , ""x y""
-    ,""" ++ [233]%N ++ runes_of_ascii "t" ++ [233]%N ++ runes_of_ascii """ ]// `tick` ""quote"" 'q'
-: u  ,
-1: u128
-//x
-//
-,3: int,	} , }
-    ,
-    } 	 ")).
-Eval vm_compute in ("<<<M4453>>>" ++ check (runes_of_ascii "
-MetaData
-roots {} MetaData x_y_z	// trailing space 
-    {	zchar[42
-] i8i8
-    ,
-    options1
-
-    _x`doc`
-	, i8
-    zchar
-    ,	uint16 Pad `u8 x,`
-    ,
-
-    } packet MetaDataX
-{
-	zchar[
-
-    4294967296
-    ]
-
-rootA	,
-        //
-      //x
-    }  packet T{ //x
-  @lengthOf(
-len
-) @tag(
-    42
-    )int64  float  `{ , }`	// c
-    ,
-
-    @lengthOf(
-i64_
-)
-
-    As @lengthOf( falsey 
-  // a // b
-		)
-
-    ,
-int64
-Pad @lengthOf(_x )
-
-    `it's`
-,@lengthOf(
-len )
-char[
-
-    255 ]  Pad `" ++ [28040; 24687; 31867; 22411]%N ++ runes_of_ascii "`	,}
-MetaData
-Foo
-    {  // " ++ [27880; 37322]%N ++ runes_of_ascii "
-  char[
-
-1  ]
-	As
-
-    , }")).
-Eval vm_compute in ("<<<M313>>>" ++ check (runes_of_ascii "root
-packet i8i8
-{ BodyLength `" ++ [28040; 24687; 31867; 22411]%N ++ runes_of_ascii "`, Header , int16 len @lengthOf( msg_type ) `
-` ,@leftPad/// triple
-(' '/// triple
-) @rightPad// " ++ [27880; 37322]%N ++ runes_of_ascii "
-( // a // b
-) // trailing space 
-@calculatedFrom(
-""x y"" ) repeatCount // @lengthOf(
-@calculatedFrom( /// triple
-""packet"")
-    `crlf
-line` , @lengthOf(falsey
-)  roots @lengthOf( metadata
-    )`line1
-line2` ,
-    i8 i64_
-, @tag( 4294967296)@tag( 3 ) repeat	zchar[
-1 ] lengthOf, @lengthOf(	Logon
-// `tick` ""quote"" 'q'
-// `tick` ""quote"" 'q'
-)repeat
-asx{stringy float`line1
-line2` , Pad ,
-}
+    )
+// c
+// @lengthOf(
+@leftPad ( '0' )  repeat
+    falsey { options1 ,char charz `doc`, zchar[ 10 ] leftPad // c
+, // " ++ [27880; 37322]%N ++ runes_of_ascii "
+} , } packet	o { stringy @calculatedFrom(
+    ""CRC32"")
     , }
 ")).
-Eval vm_compute in ("<<<M1044>>>" ++ check (runes_of_ascii "
-options	{ x // c
-= ""{,}"" ; i8i8 = true
-;matchKey	=
-""1"" ;} MetaData rootA { string
-    packetx
-    //	t
-    `it's` // c
-,
-// `tick` ""quote"" 'q'
-// packet A { u8 x, }
-char[4294967296	] roots
-,
-    zchar As ,
-    Z9_	asx `" ++ [28040; 24687; 31867; 22411]%N ++ runes_of_ascii "`,char[]Pad , } packet As{@leftPad //
-('0' ) match falsey as pack{4294967296:leftPad ,	10 : // packet A { u8 x, }
-zchar,""it's"" :
-u8x, """" : string_} ,
-    i8 Header , u16
-lengthOf@lengthOf( leftPad ) , }packet int { @tag(3 )  tag ``, }  MetaData
-    // " ++ [27880; 37322]%N ++ runes_of_ascii "
-    a1 {repeatCount	asx , }")).
-Eval vm_compute in ("<<<M1163>>>" ++ check (runes_of_ascii "
-root  packet chars
-{ }
-    packet rootA{ u128
-,match Header as
-    _x	{ 1// a // b
-:
-Foo ,
-// c
-/// triple
-[
-""" ++ [28040; 24687]%N ++ runes_of_ascii """ , 007 ]
-: float ""x y""	: repeatCount , ""\" ++ [233]%N ++ runes_of_ascii """ :
-body 1
-: float , } , i8
-    // packet A { u8 x, }
-    u8x @calculatedFrom( """ ++ [28040; 24687]%N ++ runes_of_ascii """
-) // " ++ [128512]%N ++ runes_of_ascii " emoji
-, string
-metadata ,	@lengthOf( metadata )	repeat
-    /// triple
-    zchar[
-    255
-    ] Foo ,
-// `tick` ""quote"" 'q'
-//x
-@tag( 007 )	Foo @calculatedFrom(	""// no comment""
-) `a\` , leftPad@calculatedFrom(
-""it's""
-    ) `u8 x,` , }
-")).
-Eval vm_compute in ("<<<M547>>>" ++ check (runes_of_ascii "options { As
-    =u16
-body =char[]
-} MetaData options1
-{ //
-zchar[1 ] T
-`{ , }`, stringy BodyLength
-    ,uint16 matchKey
-    , //	t
-char[ 255
-// `tick` ""quote"" 'q'
-// " ++ [128512]%N ++ runes_of_ascii " emoji
-] _x// trailing space 
-, o o `a\`
-, }
-packet chars
-{
-f32a
-{
-repeat a1,
-    repeat charz	x_y_z , asx,
-    rootA len
-`crlf
-line` ,
-}
-,// " ++ [27880; 37322]%N ++ runes_of_ascii "
-} root packet Header { string float
-`
-`
-,//	t
-} options
-{ T
-    = false options1 =
-    ""packet"" matchKey
-    =zchar[00 ] ; string_	= false ; }
-")).
-Eval vm_compute in ("<<<M739>>>" ++ check (runes_of_ascii "
-packet
-    Pad{// `tick` ""quote"" 'q'
-@tag( 42)
-body
-u8x , char[ 3 ]
-u128
-`it's`
-,
-char[ 4294967296 ]uint8x`two words`  ,@lengthOf(	f32a ) body {repeat string roots ,Pad @calculatedFrom( ""\" ++ [233]%N ++ runes_of_ascii """ // trailing space 
-)
-,
-// trailing space 
-// " ++ [27880; 37322]%N ++ runes_of_ascii "
-metadata  crc`tab	here`, lengthOf
-    {zchar[  0 ] x_y_z
-    // packet A { u8 x, }
-    @lengthOf( crc )
-    `u8 x,` ,char[] roots ,
-    //x
-    } ,
-    } ,	}
-    // c
-    options {rootA =""packet""
-    }")).
-Eval vm_compute in ("<<<M1135>>>" ++ check (runes_of_ascii "options{
-    //	t
-    o=
-float64 ; rootA =""a	b"" tag =
-    // a // b
-    true ;
-BodyLength = //	t
-""\" ++ [233]%N ++ runes_of_ascii """
-    ;
-} packet leftPad	{
-    u8x
-    //	t
-    roots
-`{ , }` // " ++ [27880; 37322]%N ++ runes_of_ascii "
-, @calculatedFrom( ""// no comment"" ) i64_
-a1,
-// packet A { u8 x, }
-/// triple
-f64
-    tag
-, }MetaData charz { string msg_type ,  roots x_y_z	, Z9_ chars`tab	here`
-    , packetx
-    u128 `// not a comment` , // c
-pack a1 ,} packet
-falsey {
-uint32 Foo ,
-}
-")).
-Eval vm_compute in ("<<<M558>>>" ++ check (runes_of_ascii "packet crc {
-// c
-//x
-@tag( 0 )
-    float64
-    falsey @calculatedFrom( ""packet""
-)
-, match x as matchKey
-    { 42: options1 0:  crc  ,  007 : u128 ,	} ,
-@calculatedFrom(""" ++ [233]%N ++ runes_of_ascii "t" ++ [233]%N ++ runes_of_ascii """ )repeat i8i8{ zchar[4294967296] x @lengthOf( As
-) ,
-repeat int32 a1
-,i32 x`" ++ [28040; 24687; 31867; 22411]%N ++ runes_of_ascii "` , },
-    int @lengthOf( metadata ) ,	repeat
-trueish, uint16 int , x_y_z @lengthOf( roots
-// `tick` ""quote"" 'q'
-//
-)`" ++ [28040; 24687; 31867; 22411]%N ++ runes_of_ascii "` , }
-// packet A { u8 x, }
-")).
-Eval vm_compute in ("<<<M624>>>" ++ check (runes_of_ascii "packet  x_y_z
-    // @lengthOf(
-    { @tag( 1
-/// triple
-//
-) A @calculatedFrom(""a\""b""	) , match Pad as lengthOf{ 007 :u128 , }	, match
-chars as roots
-    {1	: roots , [ 1
-    ] :
-    A
-, // " ++ [27880; 37322]%N ++ runes_of_ascii "
-""a	b"" : roots
-[	""abc"" , 0
-    ] :
-    // trailing space 
-    u128 ,
-    }
-    , repeat i64
-i8i8 , @calculatedFrom( """ ++ [233]%N ++ runes_of_ascii "t" ++ [233]%N ++ runes_of_ascii """ )BodyLength,
-@tag( 255 ) string u8x ,
-    BodyLength options1 `
-`
-, }
-")).
-Eval vm_compute in ("<<<M3822>>>" ++ check (runes_of_ascii "options {
-    u = ""a\""b"";
-}
-
-packet matchKey {
-    char[42] len @lengthOf(f32a) `it's`,
-    @lengthOf(x_y_z)
-    @calculatedFrom(""CRC32"")
-    uint16 f32a @lengthOf(zchar) `" ++ [233]%N ++ runes_of_ascii "`,
-    @lengthOf(Z9_)
-    @leftPad('0')
-    repeat falsey {
-        options1,
-        char charz `doc`,
-        zchar[10] leftPad,// " ++ [27880; 37322]%N ++ runes_of_ascii "
-    },
-}
-
-packet o {
-    stringy @calculatedFrom(""CRC32""),
-}")).
-Eval vm_compute in ("<<<M3543>>>" ++ check (runes_of_ascii "// top
-packet
-    // c0
-B // c1a
-  // c1b
-{ u8 // c3
-a // c4a
-  // c4b
-, }
+Eval vm_compute in ("<<<M3608>>>" ++ check (runes_of_ascii "// top
+root // c0
+packet Frame {
+    // c3
+u8 K ,
     // c6
-root // c7
-packet
-    // c8
-P
-    // c9
-{ // c10
-u8 // c11
-K // c12
-,
-    // c13
-u8
-    // c14
-L // c15a
-  // c15b
-@lengthOf( Body
-    // c17
-) ,
-    // c19
+Logon // c7a
+  // c7b
+first , // c9a
+  // c9b
 match
+    // c10
+K
+    // c11
+as // c12
+Body // c13a
+  // c13b
+{ // c14a
+  // c14b
+1 : // c16a
+  // c16b
+Logon , // c18a
+  // c18b
+2 :
     // c20
-K as Body {
-    // c24
-1 // c25
-: B ,
-    // c28
-} // c29a
-  // c29b
-, // c30
+Logout
+    // c21
+, // c22
+} , }
+    // c25
+packet Logon // c27
+{ // c28
+string // c29
+user // c30a
+  // c30b
+, // c31a
+  // c31b
+} // c32a
+  // c32b
+packet
+    // c33
+Logout { // c35
+u16 // c36
+reason
+    // c37
+, // c38a
+  // c38b
 }
-    // c31
+    // c39
 ")).
-Eval vm_compute in ("<<<M791>>>" ++ check (runes_of_ascii "root
+Eval vm_compute in ("<<<M293>>>" ++ check (runes_of_ascii "root
     packet
-falsey{  repeat i64_ , //	t
-@tag( 4294967296 ) @leftPad (' ' )
-@lengthOf( _x )x leftPad `a\`,
-/// triple
-// " ++ [27880; 37322]%N ++ runes_of_ascii "
-@calculatedFrom( """"	)  @lengthOf( i8i8 ) @tag( 10
-    ) stringy { u8x { int8 i8i8 @lengthOf( string_ ) `doc`
-, string asx, }
-// " ++ [128512]%N ++ runes_of_ascii " emoji
-/// triple
-,} ,
-    @tag( 007
-)string metadata  , } // packet A { u8 x, }")).
-Eval vm_compute in ("<<<M3791>>>" ++ check (runes_of_ascii "packet	calculatedFrom {
-    @calculatedFrom( ""a	b"" 
-)
-
-    T// packet A { u8 x, }
-  {zchar[ 0123456789
-]
-    falsey
-
-    `say ""hi""`,
-match
-
-    o  as 
-    // " ++ [27880; 37322]%N ++ runes_of_ascii "
-    matchKey  { 
-[""`tick`"" ,
-//
-  ""it's""] 
-:
-    int 
+//	t
+// c
+charz{
+f32 stringy // @lengthOf(
+, @rightPad ( '\x00'
+    ) metadata
+    { MetaDataX
+A
+    // `tick` ""quote"" 'q'
+    , }
 ,
-1 : float // a // b
-    ,	},  string
-Foo	@calculatedFrom(
-""a\\"" )
-    ,// `tick` ""quote"" 'q'
+repeat zchar[ 0/// triple
+] u8x , @calculatedFrom( // @lengthOf(
+""it's"")
+    match trueish as
+u128 { ""{,}"" :
+    stringy
+} ,}
+    packet Packet
+{char[ 3]  int @calculatedFrom( ""x y""
+) ,
+}
+MetaData Packet { u128 trueish `" ++ [28040; 24687; 31867; 22411]%N ++ runes_of_ascii "` , int8 pack,
+    // packet A { u8 x, }
+    zchar[ 00 //x
+] repeatCount `a\` ,
+    // c
+    }
+")).
+Eval vm_compute in ("<<<M3555>>>" ++ check (runes_of_ascii "// top
+options // c0
+{ // c1a
+  // c1b
+LittleEndian =
+    // c3
+true // c4a
+  // c4b
+;
+    // c5
+} // c6a
+  // c6b
+packet
+    // c7
+B // c8
+{
+    // c9
+u8 // c10
+a // c11
+, // c12
+string
+    // c13
+s // c14a
+  // c14b
+, // c15
+}
+    // c16
+root
+    // c17
+packet // c18
+P // c19
+{ // c20
+u16 // c21a
+  // c21b
+L // c22a
+  // c22b
+@lengthOf( // c23
+B // c24a
+  // c24b
+)
+    // c25
+, B
+    // c27
+,
+    // c28
+u8
+    // c29
+t , // c31a
+  // c31b
+} // c32
+")).
+Eval vm_compute in ("<<<M3635>>>" ++ check (runes_of_ascii "options {
+    LittleEndian = true;
+    StringPrefixLenType = u16;
+    ArrayPrefixLenType = u64;
+}
+packet Fill {
+}
+packet Logon {
+    repeat char[3] Tail,
+    zchar[6] venue,
+    repeat string Side2,
+}
+root packet Cancel {
+    char[] Flags,
+    char[] OrderId,
+    zchar[6] msgKind,
+    Fill,
+    char[] Acct,
+    u8 f1,
+    match f1 as Body {
+        188 : Fill,
+        5 : Logon,
+    },
+    u32 clOrdID @calculatedFrom(""CR\
+C32""),
+}
+")).
+Eval vm_compute in ("<<<M1313>>>" ++ check (runes_of_ascii "packet options1{match string_
+as// packet A { u8 x, }
+i8i8 {
+    10 :
+a1 , ""a\""b"" :
+    x_y_z ""abc"" :
+charz
+""" ++ [28040; 24687]%N ++ runes_of_ascii """
+    : //
+repeatCount, ""\" ++ [233]%N ++ runes_of_ascii """  : u8x, } ,@lengthOf( Foo// @lengthOf(
+)repeat x_y_z {  repeat u32
+BodyLength
+,
+    } ,match Foo
+    as
+msg_type
+{ 42
+:Pad [ 0
+    , """ ++ [28040; 24687]%N ++ runes_of_ascii """] : MetaDataX ,	""1"" :
+    // `tick` ""quote"" 'q'
+    float
+""x y"" // @lengthOf(
+: msg_type
+    //x
+    , 4294967296:len} , float `" ++ [28040; 24687; 31867; 22411]%N ++ runes_of_ascii "`, }
+")).
+Eval vm_compute in ("<<<M3850>>>" ++ check (runes_of_ascii "
+// `tick` ""quote"" 'q'
+	  MetaData BodyLength
+{ char[00 
+        //x
+// " ++ [27880; 37322]%N ++ runes_of_ascii "
+    ] A
+	`a\`
+	, zchar[ 	 // trailing space 
+	0123456789  ]T // packet A { u8 x, }
+
+`tab	here` 
+,
+	As
+	asx	`" ++ [28040; 24687; 31867; 22411]%N ++ runes_of_ascii "` 
+,	char[] falsey
+, o  // " ++ [128512]%N ++ runes_of_ascii " emoji
+
+	Foo`tab	here`
+    , 
+}
+
+    root
+
+packet i64_{	repeat	uint64
+o	,
+    @calculatedFrom(
+
+""abc"")
+    uint8x , @tag(
+	4294967296 )
+	char[ 255
+]
+    repeatCount
+    ``
+	,
 
 }
+")).
+Eval vm_compute in ("<<<M1364>>>" ++ check (runes_of_ascii "  MetaData
+matchKey { //	t
+}packet
+    u8x{ len
+{	_x,  } , } packet Logon{ u64 falsey @calculatedFrom( ""x y"" ) , @calculatedFrom(
+    """ ++ [233]%N ++ runes_of_ascii "t" ++ [233]%N ++ runes_of_ascii """ ) @rightPad// trailing space 
+(
+' '
+    // `tick` ""quote"" 'q'
+    )
+repeat float32 Foo ,
+    uint8 i64_
+    @lengthOf(u ) , zchar[ // " ++ [128512]%N ++ runes_of_ascii " emoji
+3  ]Header @calculatedFrom(
+    ""1"")
+// `tick` ""quote"" 'q'
+//x
+, repeat chars u128 `u8 x,`
+    , }")).
+Eval vm_compute in ("<<<M230>>>" ++ check (runes_of_ascii "packet x { lengthOf rootA , @rightPad
+( '0' )
+i8 asx @lengthOf( calculatedFrom // a // b
+),
+@lengthOf( Pad ) repeat //x
+int16 trueish // c
+``// " ++ [27880; 37322]%N ++ runes_of_ascii "
+, @calculatedFrom(
+""" ++ [128512]%N ++ runes_of_ascii """) @tag(0
+)
+@lengthOf( // a // b
+matchKey ) string MetaDataX`doc`
+,
+i16 // `tick` ""quote"" 'q'
+options1 @lengthOf(
+    // " ++ [27880; 37322]%N ++ runes_of_ascii "
+    u8x
+    // " ++ [128512]%N ++ runes_of_ascii " emoji
+    ) `a\` ,
+    u128
+u128`line1
+line2`,}")).
+Eval vm_compute in ("<<<M825>>>" ++ check (runes_of_ascii "// `tick` ""quote"" 'q'
+MetaData	BodyLength {
+char[ 00
+//x
+// " ++ [27880; 37322]%N ++ runes_of_ascii "
+]
+A
+`a\`	, zchar[// trailing space 
+0123456789 ] T // packet A { u8 x, }
+`tab	here` ,As asx `" ++ [28040; 24687; 31867; 22411]%N ++ runes_of_ascii "` ,
+char[]falsey ,  o // " ++ [128512]%N ++ runes_of_ascii " emoji
+Foo `tab	here` , } root packet
+i64_ {
+    repeat uint64 o,
+@calculatedFrom(
+""abc"" ) uint8x ,
+@tag( 4294967296
+    ) char[ 255]
+    repeatCount `` ,	}")).
+Eval vm_compute in ("<<<M1079>>>" ++ check (runes_of_ascii "packet
+    Packet
+// " ++ [128512]%N ++ runes_of_ascii " emoji
+//	t
+{ @leftPad
+('\x00' )
+    // `tick` ""quote"" 'q'
+    match trueish as Pad { 65535 :Header ,
+00 :// `tick` ""quote"" 'q'
+roots
+    [ """ ++ [233]%N ++ runes_of_ascii "t" ++ [233]%N ++ runes_of_ascii """ ,
+""1"" , ""packet"" , 42 , 0, ""x y""
+    ,
+""" ++ [128512]%N ++ runes_of_ascii """ ,
+""a	b"" ]
+    :
+BodyLength
+, """ ++ [28040; 24687]%N ++ runes_of_ascii """ : Packet ,
+[ """ ++ [128512]%N ++ runes_of_ascii """ ]: body } , } //x
+options
+    // a // b
+    { /// triple
+As = u16 }")).
+Eval vm_compute in ("<<<M4201>>>" ++ check (runes_of_ascii "
+packet
+
+    packetx { @tag( 7 )	@calculatedFrom(
+
+""`tick`""
+
+    )@calculatedFrom(""a\\"")char[] int
+,  @rightPad
+(
+
+    ' ')
+string  // `tick` ""quote"" 'q'
+	tag
+
+`tab	here`
+
+,@lengthOf(
+asx
+    ) 
+u8	// c
+	repeatCount
+    , 
+@calculatedFrom( ""// no comment"") 
+    //x
+	// trailing space 
+
+zchar[  1
+    ]
+
+a1
+	, } ")).
+Eval vm_compute in ("<<<M1868>>>" ++ check (runes_of_ascii "MetaData
+    u true }  options {
+// c
+// @lengthOf(
+float = int8 ;rootA =false ; As =	int16 // `tick` ""quote"" 'q'
+repeatCount
+    // trailing space 
+    =
+    int16
+; u8x =
+    //	t
+    '\x00' ; } options	{
+    repeatCount
+= 0
+u128
+    //
+    = false ; i64_
+// trailing space 
+// `tick` ""quote"" 'q'
+= '0' ; //	t
+}
+")).
+Eval vm_compute in ("<<<M2046>>>" ++ check (runes_of_ascii "MetaData
+    u { }  options {
+// c
+// @lengthOf(
+float = int8 ;rootA =false ; As =	int16 // `tick` ""quote"" 'q'
+repeatCount
+    // trailing space 
+    =
+    int16
+; u8x =
+    //	t
+    '\x00' ; } options	{
+    repeatCount
+= 0
+u128
+    //
+    = false ; i64_
+// trailing space 
+// `tick` ""quote"" 'q'
+= '0' ; ; //	t
+}
+")).
+Eval vm_compute in ("<<<M1877>>>" ++ check (runes_of_ascii "MetaData
+    u { }  { options
+// c
+// @lengthOf(
+float = int8 ;rootA =false ; As =	int16 // `tick` ""quote"" 'q'
+repeatCount
+    // trailing space 
+    =
+    int16
+; u8x =
+    //	t
+    '\x00' ; } options	{
+    repeatCount
+= 0
+u128
+    //
+    = false ; i64_
+// trailing space 
+// `tick` ""quote"" 'q'
+= '0' ; //	t
+}
+")).
+Eval vm_compute in ("<<<M2027>>>" ++ check (runes_of_ascii "MetaData
+    u { }  options {
+// c
+// @lengthOf(
+float = int8 ;rootA =false ; As =	int16 // `tick` ""quote"" 'q'
+repeatCount
+    // trailing space 
+    =
+    int16
+; u8x =
+    //	t
+    '\x00' ; } options	{
+    repeatCount
+= 0
+u128
+    //
+    = false i64_ ;
+// trailing space 
+// `tick` ""quote"" 'q'
+= '0' ; //	t
+}
+")).
+Eval vm_compute in ("<<<M2035>>>" ++ check (runes_of_ascii "MetaData
+    u { }  options {
+// c
+// @lengthOf(
+float = int8 ;rootA =false ; As =	int16 // `tick` ""quote"" 'q'
+repeatCount
+    // trailing space 
+    =
+    int16
+; u8x =
+    //	t
+    '\x00' ; } options	{
+    repeatCount
+= 0
+u128
+    //
+    = false ; i64_
+// trailing space 
+// `tick` ""quote"" 'q'
+ '0' ; //	t
+}
+")).
+Eval vm_compute in ("<<<M4154>>>" ++ check (runes_of_ascii "MetaData calculatedFrom {
+    // @lengthOf(
+    tag a1,
+    uint8 _x `crlf
+        line`,
+    // " ++ [27880; 37322]%N ++ runes_of_ascii "
+    // packet A { u8 x, }
+    string Z9_,
+    uint8x A `line1
+        line2`,
+    char falsey,
+    packetx Foo,
+}
+
+MetaData body {
+    string x_y_z ``,
+    falsey zchar `line1
+        line2`,
+}
+
+options {
+}")).
+Eval vm_compute in ("<<<M934>>>" ++ check (runes_of_ascii "packet metadata // `tick` ""quote"" 'q'
+{ Z9_ @lengthOf(
+// `tick` ""quote"" 'q'
+// @lengthOf(
+i64_)
+, }
+    packet pack
+// " ++ [27880; 37322]%N ++ runes_of_ascii "
+// " ++ [128512]%N ++ runes_of_ascii " emoji
+{
+options1
+@lengthOf(asx
+    ),
+@leftPad( ' ' )
+@calculatedFrom(	""abc"" )
+// `tick` ""quote"" 'q'
+// trailing space 
+falsey , // trailing space 
+char[ 3 ] rootA  , }
+")).
+Eval vm_compute in ("<<<M836>>>" ++ check (runes_of_ascii "
+packet
+    uint8x { @leftPad( '\x00' ) float32 x_y_z @lengthOf( x ) `a\` ,	int32
+Header,match
+    asx as
+    string_ {"""" :
+    lengthOf, 1 : uint8x , } , repeat /// triple
+a1 { repeat
+zchar[0	] Packet , // trailing space 
+char falsey@calculatedFrom( /// triple
+""1""), }
+,
+    } // " ++ [128512]%N ++ runes_of_ascii " emoji")).
+Eval vm_compute in ("<<<M427>>>" ++ check (runes_of_ascii "packet
+    packetx { @tag( 7 ) @calculatedFrom( ""`tick`"" ) @calculatedFrom( ""a\\""
+)char[] int , @rightPad ( ' ' )	string// `tick` ""quote"" 'q'
+tag `tab	here`
+,@lengthOf(
+    asx
+)
+u8 // c
+repeatCount , @calculatedFrom(""// no comment"" )
+//x
+// trailing space 
+zchar[
+1] a1 ,}")).
+Eval vm_compute in ("<<<M1638>>>" ++ check (runes_of_ascii "packet
+//	t
+// trailing space 
+_x {
+// packet A { u8 x, }
+// c
+char[
+3
+    ] u8x @lengthOf(
+u8x ) , @calculatedFrom(""" ++ [128512]%N ++ runes_of_ascii """ // @lengthOf(
+)
+i16	Foo
+@lengthOf(	string_
+    )`doc`	, repeat	i64 metadata , @lengthOf( string_
+) i8 // c
+u  `line1
+line2` `line1
+line2`	,
+}
+")).
+Eval vm_compute in ("<<<M1635>>>" ++ check (runes_of_ascii "packet
+//	t
+// trailing space 
+_x {
+// packet A { u8 x, }
+// c
+char[
+3
+    ] u8x @lengthOf(
+u8x ) , @calculatedFrom(""" ++ [128512]%N ++ runes_of_ascii """ // @lengthOf(
+)
+i16	Foo
+@lengthOf(	string_
+    )`doc`	, repeat	i64 metadata , @lengthOf( string_
+) i8 // c
+@leftPad  `line1
+line2`	,
+}
+")).
+Eval vm_compute in ("<<<M1498>>>" ++ check (runes_of_ascii "packet
+//	t
+// trailing space 
+_x { {
+// packet A { u8 x, }
+// c
+char[
+3
+    ] u8x @lengthOf(
+u8x ) , @calculatedFrom(""" ++ [128512]%N ++ runes_of_ascii """ // @lengthOf(
+)
+i16	Foo
+@lengthOf(	string_
+    )`doc`	, repeat	i64 metadata , @lengthOf( string_
+) i8 // c
+u  `line1
+line2`	,
+}
+")).
+Eval vm_compute in ("<<<M1664>>>" ++ check (runes_of_ascii "packet
+//	t
+// trailing space 
+_x {
+// packet A { u8 x, }
+// c
+char[
+3
+    ] u8x @lengthOf(
+u8x ) , @calculatedFrom(""" ++ [128512]%N ++ runes_of_ascii """ // @lengthOf(
+)
+i16	Foo
+@lengthOf(	string_
+ #   )`doc`	, repeat	i64 metadata , @lengthOf( string_
+) i8 // c
+u  `line1
+line2`	,
+}
+")).
+Eval vm_compute in ("<<<M1589>>>" ++ check (runes_of_ascii "packet
+//	t
+// trailing space 
+_x {
+// packet A { u8 x, }
+// c
+char[
+3
+    ] u8x @lengthOf(
+u8x ) , @calculatedFrom(""" ++ [128512]%N ++ runes_of_ascii """ // @lengthOf(
+)
+i16	Foo
+@lengthOf(	string_
+    )`doc`	repeat ,	i64 metadata , @lengthOf( string_
+) i8 // c
+u  `line1
+line2`	,
+}
+")).
+Eval vm_compute in ("<<<M1642>>>" ++ check (runes_of_ascii "packet
+//	t
+// trailing space 
+_x {
+// packet A { u8 x, }
+// c
+char[
+3
+    ] u8x @lengthOf(
+u8x ) , @calculatedFrom(""" ++ [128512]%N ++ runes_of_ascii """ // @lengthOf(
+)
+i16	Foo
+@lengthOf(	string_
+    )`doc`	, repeat	i64 metadata , @lengthOf( string_
+) i8 // c
+u  `line1
+line2`	
+}
+")).
+Eval vm_compute in ("<<<M1118>>>" ++ check (runes_of_ascii "MetaData
+tag
+    // `tick` ""quote"" 'q'
+    { u16
+    BodyLength , packetx
+f32a
+//
+// packet A { u8 x, }
+, } root packet	Packet {
+    char[ 42 ]
+    // c
+    A //x
+, } packet calculatedFrom { repeat rootA { char[ 0123456789
+    ] u128,}
+, }
+")).
+Eval vm_compute in ("<<<M1652>>>" ++ check (runes_of_ascii "packet
+//	t
+// trailing space 
+_x {
+// packet A { u8 x, }
+// c
+char[
+3
+    ] u8x @lengthOf(
+u8x ) , @calculatedFrom(""" ++ [128512]%N ++ runes_of_ascii """ // @lengthOf(
+)
+i16	Foo
+@lengthOf(	string_
+    )`doc`	, repeat	i64 metadata , @lengthOf( string_
+) i8 // c
+u  `line1")).
+Eval vm_compute in ("<<<M637>>>" ++ check (runes_of_ascii "
+packet charz {
+repeat
+zchar[
+    // @lengthOf(
+    007/// triple
+]/// triple
+falsey
+    `line1
+line2` ,
+}	root packet
+    leftPad {
+x
+    metadata
+, }	packet
+rootA { char[65535
+    // c
+    ]chars , } options { body
+= ' '
+}")).
+Eval vm_compute in ("<<<M1631>>>" ++ check (runes_of_ascii "packet
+//	t
+// trailing space 
+_x {
+// packet A { u8 x, }
+// c
+char[
+3
+    ] u8x @lengthOf(
+u8x ) , @calculatedFrom(""" ++ [128512]%N ++ runes_of_ascii """ // @lengthOf(
+)
+i16	Foo
+@lengthOf(	string_
+    )`doc`	, repeat	i64 metadata , @lengthOf( string_
+)")).
+Eval vm_compute in ("<<<M4601>>>" ++ check (runes_of_ascii "
+MetaData x
+{ uint32
+u8x
+	`" ++ [28040; 24687; 31867; 22411]%N ++ runes_of_ascii "`
 ,
 	}
-")).
-Eval vm_compute in ("<<<M2048>>>" ++ check (runes_of_ascii "MetaData
-    u { }  options {
-// c
-// @lengthOf(
-float = int8 ;rootA =false ; As =	int16 // `tick` ""quote"" 'q'
-repeatCount
-    // trailing space 
-    =
-    int16
-; u8x =
-    //	t
-    '\x00' ; } options	{
-    repeatCount
-= 0
-u128
-    //
-    = false ; i64_
-// trailing space 
-// `tick` ""quote"" 'q'
-= '0' float64 //	t
-}
-")).
-Eval vm_compute in ("<<<M1873>>>" ++ check (runes_of_ascii "MetaData
-    u { asx  options {
-// c
-// @lengthOf(
-float = int8 ;rootA =false ; As =	int16 // `tick` ""quote"" 'q'
-repeatCount
-    // trailing space 
-    =
-    int16
-; u8x =
-    //	t
-    '\x00' ; } options	{
-    repeatCount
-= 0
-u128
-    //
-    = false ; i64_
-// trailing space 
-// `tick` ""quote"" 'q'
-= '0' ; //	t
-}
-")).
-Eval vm_compute in ("<<<M1859>>>" ++ check (runes_of_ascii "@rightPad
-    u { }  options {
-// c
-// @lengthOf(
-float = int8 ;rootA =false ; As =	int16 // `tick` ""quote"" 'q'
-repeatCount
-    // trailing space 
-    =
-    int16
-; u8x =
-    //	t
-    '\x00' ; } options	{
-    repeatCount
-= 0
-u128
-    //
-    = false ; i64_
-// trailing space 
-// `tick` ""quote"" 'q'
-= '0' ; //	t
-}
-")).
-Eval vm_compute in ("<<<M1942>>>" ++ check (runes_of_ascii "MetaData
-    u { }  options {
-// c
-// @lengthOf(
-float = int8 ;rootA =false ; As =	int16 // `tick` ""quote"" 'q'
-=
-    // trailing space 
-    repeatCount
-    int16
-; u8x =
-    //	t
-    '\x00' ; } options	{
-    repeatCount
-= 0
-u128
-    //
-    = false ; i64_
-// trailing space 
-// `tick` ""quote"" 'q'
-= '0' ; //	t
-}
-")).
-Eval vm_compute in ("<<<M1888>>>" ++ check (runes_of_ascii "MetaData
-    u { }  options {
-// c
-// @lengthOf(
-root = int8 ;rootA =false ; As =	int16 // `tick` ""quote"" 'q'
-repeatCount
-    // trailing space 
-    =
-    int16
-; u8x =
-    //	t
-    '\x00' ; } options	{
-    repeatCount
-= 0
-u128
-    //
-    = false ; i64_
-// trailing space 
-// `tick` ""quote"" 'q'
-= '0' ; //	t
-}
-")).
-Eval vm_compute in ("<<<M1895>>>" ++ check (runes_of_ascii "MetaData
-    u { }  options {
-// c
-// @lengthOf(
-float =  ;rootA =false ; As =	int16 // `tick` ""quote"" 'q'
-repeatCount
-    // trailing space 
-    =
-    int16
-; u8x =
-    //	t
-    '\x00' ; } options	{
-    repeatCount
-= 0
-u128
-    //
-    = false ; i64_
-// trailing space 
-// `tick` ""quote"" 'q'
-= '0' ; //	t
-}
-")).
-Eval vm_compute in ("<<<M3905>>>" ++ check (runes_of_ascii "MetaData packetx {
-    MetaDataX zchar,
-    calculatedFrom i64_,
-    char[] BodyLength,
-    zchar[4294967296] MetaDataX ``,
-    int BodyLength `
-    `,
-    i64 i64_,
-}
-
-options {
-    u8x = u32;
-}
-
-MetaData rootA {
-    zchar[4294967296] roots `doc`,
-    char[0123456789] uint8x `" ++ [233]%N ++ runes_of_ascii "`,
-    Z9_ len `u8 x,`,
-}")).
-Eval vm_compute in ("<<<M4519>>>" ++ check (runes_of_ascii "packet i8i8 {
-    zchar[10] a1,
-}
-
-packet x_y_z {
-}
-
-options {
-    matchKey = false;
-    Foo = i32;
-    MetaDataX = 007
-    pack = """ ++ [28040; 24687]%N ++ runes_of_ascii """;
-}
-
-packet leftPad {
-}
-
-root packet stringy {
-    /// triple
-    rootA Pad,
-    falsey @calculatedFrom(""it's"") `two words`,
-    u8x float,
-    int64 u8x,
-}//x")).
-Eval vm_compute in ("<<<M4311>>>" ++ check (runes_of_ascii "// trailing space 
-packet pack {
-    @lengthOf(Pad)
-    char[] msg_type,
-}
-
-options {
-    // " ++ [128512]%N ++ runes_of_ascii " emoji
-    // " ++ [128512]%N ++ runes_of_ascii " emoji
-    chars = int32;//
-    chars = ""CRC32""
-}
-
-packet f32a {
-    @calculatedFrom(""a\""b"")
-    zchar @lengthOf(o),
-    int32 o,
-    repeat int64 zchar `" ++ [28040; 24687; 31867; 22411]%N ++ runes_of_ascii "`,
-}/// triple")).
-Eval vm_compute in ("<<<M1078>>>" ++ check (runes_of_ascii "root packet Logon { string MetaDataX @calculatedFrom( ""\" ++ [233]%N ++ runes_of_ascii """ )// a // b
-`two words` , @leftPad
-( '\x00' //x
-) len a1 , // @lengthOf(
-@tag( 0123456789 )
-    repeat char[]
-f32a , repeat uint16 pack
-    ,}
-MetaData
-rootA { BodyLength Z9_ `{ , }` ,
-    zchar[65535 ] u ,
-}
-")).
-Eval vm_compute in ("<<<M1133>>>" ++ check (runes_of_ascii "options {// " ++ [27880; 37322]%N ++ runes_of_ascii "
-u= i16;
-a1
-=	' ' ; a1
-// `tick` ""quote"" 'q'
-// @lengthOf(
-=// " ++ [128512]%N ++ runes_of_ascii " emoji
-'0' leftPad= true} // trailing space 
-packet charz { @calculatedFrom( ""a	b"" ) @leftPad ( )  @lengthOf(// " ++ [128512]%N ++ runes_of_ascii " emoji
-chars
-    /// triple
-    ) chars { i16 x, // " ++ [128512]%N ++ runes_of_ascii " emoji
-} ,}
-
-")).
-Eval vm_compute in ("<<<M1563>>>" ++ check (runes_of_ascii "packet
-//	t
-// trailing space 
-_x {
 // packet A { u8 x, }
-// c
-char[
-3
-    ] u8x @lengthOf(
-u8x ) , @calculatedFrom(""" ++ [128512]%N ++ runes_of_ascii """ // @lengthOf(
-)
-i16	Foo Foo
-@lengthOf(	string_
-    )`doc`	, repeat	i64 metadata , @lengthOf( string_
-) i8 // c
-u  `line1
-line2`	,
-}
-")).
-Eval vm_compute in ("<<<M1669>>>" ++ check (runes_of_ascii "packet
-//	t
-// trailing space 
-_x {
+	// " ++ [128512]%N ++ runes_of_ascii " emoji
+  MetaData
+
+o 
+{ }
+
 // packet A { u8 x, }
-// c
-char[
-3
-    ] na" ++ [239]%N ++ runes_of_ascii "ve @lengthOf(
-u8x ) , @calculatedFrom(""" ++ [128512]%N ++ runes_of_ascii """ // @lengthOf(
-)
-i16	Foo
-@lengthOf(	string_
-    )`doc`	, repeat	i64 metadata , @lengthOf( string_
-) i8 // c
-u  `line1
-line2`	,
-}
+	packet pack 
+{ // packet A { u8 x, }
+  repeat 
+zchar[
+4294967296// a // b
+		]
+    roots
+,}
 ")).
-Eval vm_compute in ("<<<M1539>>>" ++ check (runes_of_ascii "packet
-//	t
-// trailing space 
-_x {
-// packet A { u8 x, }
-// c
-char[
-3
-    ] u8x @lengthOf(
-u8x ) @calculatedFrom( ,""" ++ [128512]%N ++ runes_of_ascii """ // @lengthOf(
-)
-i16	Foo
-@lengthOf(	string_
-    )`doc`	, repeat	i64 metadata , @lengthOf( string_
-) i8 // c
-u  `line1
-line2`	,
-}
-")).
-Eval vm_compute in ("<<<M1512>>>" ++ check (runes_of_ascii "packet
-//	t
-// trailing space 
-_x {
-// packet A { u8 x, }
-// c
-char[
-3
-     u8x @lengthOf(
-u8x ) , @calculatedFrom(""" ++ [128512]%N ++ runes_of_ascii """ // @lengthOf(
-)
-i16	Foo
-@lengthOf(	string_
-    )`doc`	, repeat	i64 metadata , @lengthOf( string_
-) i8 // c
-u  `line1
-line2`	,
-}
-")).
-Eval vm_compute in ("<<<M777>>>" ++ check (runes_of_ascii "root packet i8i8
-// `tick` ""quote"" 'q'
-// packet A { u8 x, }
-{ string calculatedFrom @calculatedFrom( ""a	b"" //x
-)
-    , @calculatedFrom(
-""abc"") // " ++ [27880; 37322]%N ++ runes_of_ascii "
-int32 float// " ++ [128512]%N ++ runes_of_ascii " emoji
+Eval vm_compute in ("<<<M925>>>" ++ check (runes_of_ascii "packet crc  {matchKey
+`tab	here`
+    ,
+    repeat f32a{ // trailing space 
+zchar  { string uint8x
 ,
-//x
-// a // b
-@calculatedFrom( ""a\""b"")
-repeat u64 BodyLength
-,
-    }
-")).
-Eval vm_compute in ("<<<M3738>>>" ++ check (runes_of_ascii "MetaData u {
-}
-
-options {
-    // c
-    // @lengthOf(
-    float = int8;
-    rootA = false;
-    As = int16// `tick` ""quote"" 'q'
-    repeatCount = int16;
-    u8x = '\x00';
-}
-
-options {
-    repeatCount = 0
-    u128 = false;
-    i64_ = '0';//	t
-}")).
-Eval vm_compute in ("<<<M89>>>" ++ check (runes_of_ascii "//	t
-packet
-packetx { zchar , @lengthOf( x_y_z )o ,
-}
-    packet  Packet // " ++ [128512]%N ++ runes_of_ascii " emoji
-{ match u128 as // a // b
-Header{ [
-    7
-    ,""1""
-]: u
-    , ""x y"" :
-charz 0123456789 : calculatedFrom
-//	t
-//x
-} ,// " ++ [27880; 37322]%N ++ runes_of_ascii "
-repeat  roots
-tag
-    ,}")).
-Eval vm_compute in ("<<<M428>>>" ++ check (runes_of_ascii "root	packet  As { zchar[0123456789] MetaDataX ,
-    zchar[10 ] falsey
-    , @calculatedFrom( """ ++ [128512]%N ++ runes_of_ascii """ )pack ,	A
-{repeat u8x tag ,  int64 T @lengthOf( Packet
-) ,	x Logon
-    //x
-    , options1 @calculatedFrom( ""a	b"") , } , } 	 ")).
-Eval vm_compute in ("<<<M3952>>>" ++ check (runes_of_ascii "
-
-  packet
-
-tag
-    {	BodyLength 
-
-    // @lengthOf(
-  @lengthOf(
-options1 ) ,
-    } options
-    {
-
-    trueish = ""a\\""matchKey=
-
-0123456789 // trailing space 
-  ;
-    BodyLength= '\x00'  charz
-
-= 
-""" ++ [233]%N ++ runes_of_ascii "t" ++ [233]%N ++ runes_of_ascii """
-
-; }
-
-")).
-Eval vm_compute in ("<<<M1621>>>" ++ check (runes_of_ascii "packet
-//	t
-// trailing space 
-_x {
-// packet A { u8 x, }
-// c
-char[
-3
-    ] u8x @lengthOf(
-u8x ) , @calculatedFrom(""" ++ [128512]%N ++ runes_of_ascii """ // @lengthOf(
-)
-i16	Foo
-@lengthOf(	string_
-    )`doc`	, repeat	i64 metadata , @lengthOf(")).
+repeat char[	4294967296 // trailing space 
+]
+msg_type ,} , roots{ zchar[ 7 ] u ,	},
+    uint64 chars ,} ,  }")).
 Eval vm_compute in ("<<<M1697>>>" ++ check (runes_of_ascii "options { trueish = ""`tick`"" ; ; string_= """ ++ [233]%N ++ runes_of_ascii "t" ++ [233]%N ++ runes_of_ascii """
     // c
     } root
@@ -2445,76 +2381,60 @@ packet Logon @leftPad
 u16 string_ `u8 x,` ,
 }
 ")).
-Eval vm_compute in ("<<<M4472>>>" ++ check (runes_of_ascii "options { 
-trueish =
-    ""`tick`"";
-    string_
-=
-""" ++ [233]%N ++ runes_of_ascii "t" ++ [233]%N ++ runes_of_ascii """ 
-  // c
-  }  root packet	body{stringy@calculatedFrom(
-""a	b"")
-
-    `line1
-line2` ,	}packet Logon
-{
-@leftPad (
-    ' ' )	//	t
-  u16
-	string_ ,
-
-}")).
-Eval vm_compute in ("<<<M4568>>>" ++ check (runes_of_ascii "  MetaData
-u8x{ i64_ u128
-
-`tab	here` ,
-char[]asx , u  // packet A { u8 x, }
-  	BodyLength
-,
-u64	uint8x	,
-
-    _x
-rootA//x
-  ,}
-	MetaData
-
-    trueish
-	{float64
-asx 	 // c
-	,/// triple
-
-	}
-
-")).
-Eval vm_compute in ("<<<M714>>>" ++ check (runes_of_ascii "  root packet u128 { string
-// trailing space 
-//	t
-Pad  `" ++ [28040; 24687; 31867; 22411]%N ++ runes_of_ascii "`
-, @calculatedFrom( ""a\\"")	msg_type, @calculatedFrom( """ ++ [233]%N ++ runes_of_ascii "t" ++ [233]%N ++ runes_of_ascii """ )	match Pad as f32a {	3 :// trailing space 
-repeatCount  ,	} , } // c")).
-Eval vm_compute in ("<<<M1128>>>" ++ check (runes_of_ascii "packet Foo { @tag( 0 ) @lengthOf(
-Packet
-// packet A { u8 x, }
-// packet A { u8 x, }
-) zchar[65535 ]  chars `it's` ,  float
-@lengthOf( repeatCount)
-    `line1
-line2` , }
-    options { }
-")).
-Eval vm_compute in ("<<<M785>>>" ++ check (runes_of_ascii "MetaData lengthOf
-    { asx x,
-i8 MetaDataX,	string
-/// triple
-// trailing space 
-_x ,
+Eval vm_compute in ("<<<M1994>>>" ++ check (runes_of_ascii "MetaData
+    u { }  options {
+// c
+// @lengthOf(
+float = int8 ;rootA =false ; As =	int16 // `tick` ""quote"" 'q'
 repeatCount
-    Pad,zchar[
-// trailing space 
+    // trailing space 
+    =
+    int16
+; u8x =
+    //	t
+    '\x00' ; } options")).
+Eval vm_compute in ("<<<M471>>>" ++ check (runes_of_ascii "packet Header { int@lengthOf( lengthOf
+    ) , }
+    packet	Z9_ { @lengthOf( Z9_ ) repeat
+i8 lengthOf, } options {
+    rootA =  ' ' u8x= 65535 As = int8 matchKey = '\x00'
+; msg_type  =
+' ';
+    }")).
+Eval vm_compute in ("<<<M1363>>>" ++ check (runes_of_ascii "packet
+    metadata{ repeat BodyLength
+// packet A { u8 x, }
+// c
+,
+    /// triple
+    int8
+chars , u128@calculatedFrom( ""a\""b""	) `tab	here` ,
+// packet A { u8 x, }
+//x
+}
+// packet A { u8 x, }
+")).
+Eval vm_compute in ("<<<M1122>>>" ++ check (runes_of_ascii "root packet a1 {u8x{ char[ // trailing space 
+10] tag
+`` , } // " ++ [128512]%N ++ runes_of_ascii " emoji
+, } packet packetx { string crc	@calculatedFrom(""abc""	), @lengthOf( Packet ) repeat u32
+rootA , // @lengthOf(
+}
+")).
+Eval vm_compute in ("<<<M1010>>>" ++ check (runes_of_ascii "MetaData o
 //
-00 ]crc// @lengthOf(
-`two words`
-, } //x")).
+/// triple
+{
+    body	f32a `
+` ,
+i32 string_ `line1
+line2`, int64
+    //
+    matchKey
+    , string crc,zchar[ 4294967296	] msg_type
+    `crlf
+line`, u32 Packet ,}
+")).
 Eval vm_compute in ("<<<M189>>>" ++ check (runes_of_ascii "MetaData  msg_type	{ Packet
 // @lengthOf(
 // trailing space 
@@ -2526,56 +2446,48 @@ zchar[ 7
 uint8x,
 leftPad crc `
 `, }")).
-Eval vm_compute in ("<<<M146>>>" ++ check (runes_of_ascii "root packet	BodyLength
-    {
-    // " ++ [27880; 37322]%N ++ runes_of_ascii "
-    @lengthOf( asx) repeat char[ 007
-] matchKey ,char[]
-MetaDataX @lengthOf(
-Foo) `tab	here` ,
-repeat uint64 //	t
-f32a
-, }")).
-Eval vm_compute in ("<<<M2377>>>" ++ check (runes_of_ascii "// c
+Eval vm_compute in ("<<<M3917>>>" ++ check (runes_of_ascii "
+root
+packet matchKey{ 
+zchar[ 3
+
+    ]
+pack
+
+    @calculatedFrom(
+""a	b""  )
+    `doc`,
+
+}
+options
+
+{ }
+MetaData A
+
+{int8
+
+    msg_type
+, 
+      // c
+	  }
+
+")).
+Eval vm_compute in ("<<<M2365>>>" ++ check (runes_of_ascii "// c
 packet x { @lengthOf( metadata ) repeat lengthOf
 ,a1{
-trueish	,// c
-repeat repeat//	t
+trueish trueish	,// c
+repeat//	t
 MetaDataX , } , zchar[
     42	] rootA // `tick` ""quote"" 'q'
 ,
     }
 ")).
-Eval vm_compute in ("<<<M3959>>>" ++ check (runes_of_ascii "root packet repeatCount {
-}
-
-MetaData crc {
-    float32 x,
-    float64 falsey `
-        `,
-    u32 f32a `" ++ [233]%N ++ runes_of_ascii "`,
-    uint16 MetaDataX,
-}
-
-options {
-    len = 10
-}")).
-Eval vm_compute in ("<<<M2352>>>" ++ check (runes_of_ascii "// c
-packet x { @lengthOf( metadata ) repeat lengthOf
-,a1{
-trueish	,// c
-repeat//	t
-MetaDataX , } , , zchar[
-    42	] rootA // `tick` ""quote"" 'q'
-,
-    }
-")).
-Eval vm_compute in ("<<<M2115>>>" ++ check (runes_of_ascii "options{
+Eval vm_compute in ("<<<M2125>>>" ++ check (runes_of_ascii "options{
 _x
 = true
 } options
-{ o o	= /// triple
-false
+{ o	= /// triple
+false false
     ; chars
 = ""\n"" } root packet	Pad
 /// triple
@@ -2583,414 +2495,433 @@ false
 {	chars
     // a // b
     ,}")).
-Eval vm_compute in ("<<<M4576>>>" ++ check (runes_of_ascii "MetaData msg_type {
+Eval vm_compute in ("<<<M2322>>>" ++ check (runes_of_ascii "// c
+packet x { @lengthOf( metadata "" ) repeat lengthOf
+,a1{
+trueish	,// c
+repeat//	t
+MetaDataX , } , zchar[
+    42	] rootA // `tick` ""quote"" 'q'
+,
+    }
+")).
+Eval vm_compute in ("<<<M304>>>" ++ check (runes_of_ascii "  packet
+    Packet { i8 MetaDataX , }
+    root packet
+    a1
+{ rootA @lengthOf( uint8x )
+    ,
+    repeatCount
+{
+char[]u , u16
+msg_type
+`a\` ,
+    }
+, }
+")).
+Eval vm_compute in ("<<<M2402>>>" ++ check (runes_of_ascii "// c
+packet x { @lengthOf( metadata ) lengthOf repeat
+,a1{
+trueish	,// c
+repeat//	t
+MetaDataX , } , zchar[
+    42	] rootA // `tick` ""quote"" 'q'
+,
+    }
+")).
+Eval vm_compute in ("<<<M1954>>>" ++ check (runes_of_ascii "MetaData
+    u { }  options {
+// c
+// @lengthOf(
+float = int8 ;rootA =false ; As =	int16 // `tick` ""quote"" 'q'
+repeatCount
+    // trailing space 
+    =")).
+Eval vm_compute in ("<<<M4364>>>" ++ check (runes_of_ascii "options {
+    packetx = zchar[4294967296];
 }
 
-root packet T {
-    @rightPad()
-    repeat char[3] x_y_z,
-    @lengthOf(roots)
-    string i64_ @lengthOf(u8x) `// not a comment`,
+options {
+}
+
+MetaData uint8x {
+    char[3] o `
+    `,
+    crc string_,
+    char[] int,// trailing space 
 }")).
-Eval vm_compute in ("<<<M2101>>>" ++ check (runes_of_ascii "options{
+Eval vm_compute in ("<<<M2147>>>" ++ check (runes_of_ascii "options{
 _x
 = true
-options }
+} options
+{ o	= /// triple
+false
+    ; chars
+= ( } root packet	Pad
+/// triple
+// packet A { u8 x, }
+{	chars
+    // a // b
+    ,}")).
+Eval vm_compute in ("<<<M1343>>>" ++ check (runes_of_ascii "
+options
+{
+asx
+    =""CRC32"" ; MetaDataX// c
+= char[ 4294967296	]
+    ;
+// " ++ [27880; 37322]%N ++ runes_of_ascii "
+// trailing space 
+_x = '0'; trueish=
+""a	b"" ;	} // packet A { u8 x, }")).
+Eval vm_compute in ("<<<M1571>>>" ++ check (runes_of_ascii "packet
+//	t
+// trailing space 
+_x {
+// packet A { u8 x, }
+// c
+char[
+3
+    ] u8x @lengthOf(
+u8x ) , @calculatedFrom(""" ++ [128512]%N ++ runes_of_ascii """ // @lengthOf(
+)
+i16	Foo")).
+Eval vm_compute in ("<<<M1566>>>" ++ check (runes_of_ascii "packet
+//	t
+// trailing space 
+_x {
+// packet A { u8 x, }
+// c
+char[
+3
+    ] u8x @lengthOf(
+u8x ) , @calculatedFrom(""" ++ [128512]%N ++ runes_of_ascii """ // @lengthOf(
+)
+i16")).
+Eval vm_compute in ("<<<M3885>>>" ++ check (runes_of_ascii "
+options 
+{
+
+    u 	 // a // b
+= 42 x_y_z = ' ' 
+;
+    msg_type
+
+    =  true  ;u	=  10
+;
+}
+options
+{ zchar	=
+uint8  ;  }// c
+")).
+Eval vm_compute in ("<<<M3827>>>" ++ check (runes_of_ascii "packet A {
+    match k as n {
+        [
+            1, 22, 007, 4, 5,
+            66, 7, 8
+        ] : B,
+        2 : C,
+    },
+}")).
+Eval vm_compute in ("<<<M643>>>" ++ check (runes_of_ascii "
+packet metadata {
+// trailing space 
+// trailing space 
+@calculatedFrom(// `tick` ""quote"" 'q'
+""CRC32"" )
+stringy As ,
+    }
+")).
+Eval vm_compute in ("<<<M4244>>>" ++ check (runes_of_ascii "MetaData calculatedFrom {
+    crc Logon ``,
+    x u8x `line1
+        line2`,
+    i64 u128,
+    char[0123456789] packetx,
+}")).
+Eval vm_compute in ("<<<M3335>>>" ++ check (runes_of_ascii "root packet matchKey { zchar[ 3 ] pack @calculatedFrom( ""a	b"" ) `doc`
+// c
+, } options { } MetaData A { int8 msg_type , }")).
+Eval vm_compute in ("<<<M1408>>>" ++ check (runes_of_ascii "
+packet
+    falsey { { Header@calculatedFrom(""packet""  ) , char[
+    0123456789 ] packetx
+    , } // `tick` ""quote"" 'q'")).
+Eval vm_compute in ("<<<M4315>>>" ++ check (runes_of_ascii "  options
+
+    {	Pad=	zchar[10
+
+    ];
+a1  //
+	=	""1""  stringy
+=""{,}"" ; uint8x='0'  BodyLength = 1 ; //	t
+    }
+")).
+Eval vm_compute in ("<<<M1432>>>" ++ check (runes_of_ascii "
+packet
+    falsey { Header@calculatedFrom(""packet""  )  char[
+    0123456789 ] packetx
+    , } // `tick` ""quote"" 'q'")).
+Eval vm_compute in ("<<<M3821>>>" ++ check (runes_of_ascii "
+packet
+
+    o
+    // c
+	{
+repeat
+
+    Logon
+
+uint8x
+
+,
+}
+options{asx=
+    zchar[ 3] stringy = '\x00'}
+
+")).
+Eval vm_compute in ("<<<M2187>>>" ++ check (runes_of_ascii "options{
+_x
+= true
+} options
 { o	= /// triple
 false
     ; chars
 = ""\n"" } root packet	Pad
 /// triple
-// packet A { u8 x, }
-{	chars
-    // a // b
-    ,}")).
-Eval vm_compute in ("<<<M2114>>>" ++ check (runes_of_ascii "options{
-_x
-= true
-} options
-{ 	= /// triple
-false
-    ; chars
-= ""\n"" } root packet	Pad
-/// triple
-// packet A { u8 x, }
-{	chars
-    // a // b
-    ,}")).
-Eval vm_compute in ("<<<M2391>>>" ++ check (runes_of_ascii "// c
-packet x { @lengthOf( metadata ) repeat lengthOf
-,a1{
-trueish	,// c
-repeat//	t
-" ++ [252]%N ++ runes_of_ascii "ber , } , zchar[
-    42	] rootA // `tick` ""quote"" 'q'
-,
-    }
-")).
-Eval vm_compute in ("<<<M1069>>>" ++ check (runes_of_ascii "MetaData  uint8x{  char[
-0
-    ]As	,	}
-MetaData	matchKey
-    // c
-    {
-    //x
-    Logon rootA//
-`{ , }`
-    ,  }packet Packet { string
-As
-,
-}
-
-")).
-Eval vm_compute in ("<<<M4180>>>" ++ check (runes_of_ascii "packet A {
-    Inner {
-        u8 x `a
-        
-        b`,
-        Deep {
-            u8 y `a
-            
-            b`,
-        },
-    },
+// packe")).
+Eval vm_compute in ("<<<M4437>>>" ++ check (runes_of_ascii "options {
+    Pad = zchar[10];
+    a1 = ""1""
+    stringy = ""{,}"";
+    uint8x = '0'
+    BodyLength = 1;//	t
 }")).
-Eval vm_compute in ("<<<M559>>>" ++ check (runes_of_ascii "packet trueish { match
-    falsey as
-    leftPad { // " ++ [128512]%N ++ runes_of_ascii " emoji
-""// no comment"":
-// " ++ [128512]%N ++ runes_of_ascii " emoji
-//
-leftPad } , repeatCount
-string_ `{ , }`
-,}")).
-Eval vm_compute in ("<<<M4035>>>" ++ check (runes_of_ascii "packet chars
-
-    {}
-
-    packet 
-
-    // c
-  	MetaDataX 
-{
-@tag(
-42 ) i16 string_
-    ,
-repeat
-
-    x `say ""hi""`,
-
-    }
-
-")).
-Eval vm_compute in ("<<<M954>>>" ++ check (runes_of_ascii "packet Z9_ {
-@tag(
-    00	)
-    @tag(7) @lengthOf(
-    //x
-    Logon)zchar[
-0123456789
+Eval vm_compute in ("<<<M107>>>" ++ check (runes_of_ascii "
+packet a1{ match /// triple
+T as pack
+{007 : Header ,} , calculatedFrom	, } MetaData
+options1
+    { }")).
+Eval vm_compute in ("<<<M1351>>>" ++ check (runes_of_ascii "options { options1 =
+char[
+00
 ]
-x_y_z@calculatedFrom( ""a\\""  ) , }
-")).
-Eval vm_compute in ("<<<M4455>>>" ++ check (runes_of_ascii "// top
-MetaData float {
-    float64 charz `
-        `,
-}
+    ; len=
+""" ++ [128512]%N ++ runes_of_ascii """ ; a1
+    =
+    42
+    Header =
+' '}packet Foo { }
 
-// c7
-root packet chars {
-    @rightPad('0')
-    // c15
-    Foo,
-}")).
-Eval vm_compute in ("<<<M1142>>>" ++ check (runes_of_ascii "root
-    packet Foo	{@rightPad ( '\x00' ) Header
-    // " ++ [27880; 37322]%N ++ runes_of_ascii "
-    Pad
-`tab	here`,@rightPad  (
-'\x00'
-) zchar[ 1	]x_y_z , }
 ")).
-Eval vm_compute in ("<<<M3341>>>" ++ check (runes_of_ascii "root packet matchKey { zchar[ 3 ] pack @calculatedFrom( ""a	b"" ) `doc` , } options
-// c
-{ } MetaData A { int8 msg_type , }")).
-Eval vm_compute in ("<<<M1463>>>" ++ check (runes_of_ascii "
-packet
-    falsey { Header@calculatedFrom(""packet""  ) , char[
-    0123456789 ] packetx
-    , } } // `tick` ""quote"" 'q'")).
-Eval vm_compute in ("<<<M1419>>>" ++ check (runes_of_ascii "
-packet
-    falsey { Header""packet""@calculatedFrom(  ) , char[
-    0123456789 ] packetx
-    , } // `tick` ""quote"" 'q'")).
-Eval vm_compute in ("<<<M3528>>>" ++ check (runes_of_ascii "// top
-root // c0a
-  // c0b
-packet P // c2a
-  // c2b
-{ // c3
-repeat // c4
-char cs , u8 x // c9a
-  // c9b
-, // c10
-} ")).
-Eval vm_compute in ("<<<M4032>>>" ++ check (runes_of_ascii "root packet 
-matchKey{
-
-    f32a// " ++ [27880; 37322]%N ++ runes_of_ascii "
-	`u8 x,` ,char[]
-u8x,
-	@calculatedFrom( ""a\""b""
-
-    )
-i32
-i8i8  , }")).
-Eval vm_compute in ("<<<M4277>>>" ++ check (runes_of_ascii "packet i8i8 {
-    @calculatedFrom(""it's"")
-    @leftPad('0')
-    @lengthOf(msg_type)
-    u8 Logon `tab	here`,
-}")).
-Eval vm_compute in ("<<<M833>>>" ++ check (runes_of_ascii "packet
-chars
-    { @tag(	0123456789) match crc as
-tag { 10
-    : uint8x ,
-[ 42 ]:
-int // " ++ [128512]%N ++ runes_of_ascii " emoji
-,}
-, }
-")).
-Eval vm_compute in ("<<<M4421>>>" ++ check (runes_of_ascii "MetaData float {
-    float64 charz `
-        `,
-}
-
-root packet chars {
-    @rightPad('0')
-    Foo,// c
-}")).
-Eval vm_compute in ("<<<M992>>>" ++ check (runes_of_ascii "packet BodyLength {
-    uint16 tag // packet A { u8 x, }
-, uint8 Header @lengthOf(
-    chars )
-, }
-")).
-Eval vm_compute in ("<<<M2232>>>" ++ check (runes_of_ascii "options
-{ } options { BodyLength BodyLength= u16 Header= f64 ; u128 =
-    true
-    ; } // a // b")).
-Eval vm_compute in ("<<<M4013>>>" ++ check (runes_of_ascii "
-packet BodyLength
-{ uint16
-tag// packet A { u8 x, }
-	, uint8
-Header @lengthOf( chars	)
+Eval vm_compute in ("<<<M926>>>" ++ check (runes_of_ascii "packet u{ repeat tag chars
 ,
+//	t
+// a // b
+u16 zchar
+/// triple
+//	t
+,
+uint8 falsey
+    `doc` ,
 }
 ")).
-Eval vm_compute in ("<<<M76>>>" ++ check (runes_of_ascii "MetaData
-chars {
-uint32 chars	`doc` , int64 float, // trailing space 
-u8
-pack `
-` ,
-    }
-")).
-Eval vm_compute in ("<<<M2257>>>" ++ check (runes_of_ascii "options
-{ } options { BodyLength= u16 Header= f64 f64 ; u128 =
-    true
-    ; } // a // b")).
-Eval vm_compute in ("<<<M3277>>>" ++ check (runes_of_ascii "MetaData float { float64 charz // c
-`
-` , } root packet chars { @rightPad ( '0' ) Foo , }")).
-Eval vm_compute in ("<<<M3488>>>" ++ check (runes_of_ascii "packet chars
-// c
-{ } packet MetaDataX { @tag( 42 ) i16 string_ , repeat x `say ""hi""` , }")).
-Eval vm_compute in ("<<<M4018>>>" ++ check (runes_of_ascii "// c
-MetaData body {
-    i64 pack `it's`,
+Eval vm_compute in ("<<<M4376>>>" ++ check (runes_of_ascii "options {
 }
 
-packet stringy {
-    int16 calculatedFrom,
-}")).
-Eval vm_compute in ("<<<M2264>>>" ++ check (runes_of_ascii "options
-{ } options { BodyLength= u16 Header= f64 i8 u128 =
+options {
+    BodyLength = u16
+    Header = f64;
+    u128 = true;
+}// a // b@leftpad")).
+Eval vm_compute in ("<<<M3799>>>" ++ check (runes_of_ascii "
+packet	A	{ 
+@leftPad
+
+    (
+
+) 
+char[ 4 ] x , 
+@rightPad
+    (	)  zchar[2
+	]
+    y
+    , } ")).
+Eval vm_compute in ("<<<M809>>>" ++ check (runes_of_ascii "
+options  {u =	uint16
+i8i8 =i8 ; string_ = false ;asx= true lengthOf
+=
+0123456789
+    ;
+}
+")).
+Eval vm_compute in ("<<<M3484>>>" ++ check (runes_of_ascii "
+// c
+packet chars { } packet MetaDataX { @tag( 42 ) i16 string_ , repeat x `say ""hi""` , }")).
+Eval vm_compute in ("<<<M3283>>>" ++ check (runes_of_ascii "MetaData float { float64 charz `
+` , } // c
+root packet chars { @rightPad ( '0' ) Foo , }")).
+Eval vm_compute in ("<<<M3494>>>" ++ check (runes_of_ascii "packet chars { } packet
+// c
+MetaDataX { @tag( 42 ) i16 string_ , repeat x `say ""hi""` , }")).
+Eval vm_compute in ("<<<M2213>>>" ++ check (runes_of_ascii "options
+{ { } options { BodyLength= u16 Header= f64 ; u128 =
     true
     ; } // a // b")).
-Eval vm_compute in ("<<<M2210>>>" ++ check (runes_of_ascii "{
-options } options { BodyLength= u16 Header= f64 ; u128 =
+Eval vm_compute in ("<<<M2301>>>" ++ check (runes_of_ascii "options
+{ } options { BodyLength= u16 Header= f64 ; u128 =
+   | true
+    ; } // a // b")).
+Eval vm_compute in ("<<<M2243>>>" ++ check (runes_of_ascii "options
+{ } options { BodyLength= Header u16= f64 ; u128 =
     true
     ; } // a // b")).
-Eval vm_compute in ("<<<M3227>>>" ++ check (runes_of_ascii "packet metadata { Logon { A `" ++ [28040; 24687; 31867; 22411]%N ++ runes_of_ascii "` , // c
-tag o , } , zchar len `// not a comment` , }")).
-Eval vm_compute in ("<<<M2216>>>" ++ check (runes_of_ascii "options
-{  options { BodyLength= u16 Header= f64 ; u128 =
-    true
-    ; } // a // b")).
-Eval vm_compute in ("<<<M3447>>>" ++ check (runes_of_ascii "packet o { repeat Logon uint8x , } options { // c
-asx = zchar[ 3 ] stringy = '\x00' }")).
-Eval vm_compute in ("<<<M3916>>>" ++ check (runes_of_ascii "packet A {
-    match k as n {
-        [1, 22, 4, ""c c""] : B,
-        2 : C,
-    },
-}")).
-Eval vm_compute in ("<<<M2936>>>" ++ check (runes_of_ascii "packet A {
+Eval vm_compute in ("<<<M3234>>>" ++ check (runes_of_ascii "packet metadata { Logon { A `" ++ [28040; 24687; 31867; 22411]%N ++ runes_of_ascii "` , tag o ,
+// c
+} , zchar len `// not a comment` , }")).
+Eval vm_compute in ("<<<M2944>>>" ++ check (runes_of_ascii "packet A {
   match k as n {
-    [1, 22, 007, 4, 5, 66, 7, 8] : B,
+    [1, 22, ""c c"", 4, 5, ""f"", 7, 8] : B,
     2 : C
   },
 }")).
-Eval vm_compute in ("<<<M507>>>" ++ check (runes_of_ascii "packet packetx
-    {
-// trailing space 
-/// triple
-@calculatedFrom( """" ) Z9_ , }
-")).
-Eval vm_compute in ("<<<M2221>>>" ++ check (runes_of_ascii "options
-{ }  { BodyLength= u16 Header= f64 ; u128 =
+Eval vm_compute in ("<<<M3457>>>" ++ check (runes_of_ascii "packet o { repeat Logon uint8x , } options { asx = zchar[ 3 ] // c
+stringy = '\x00' }")).
+Eval vm_compute in ("<<<M1386>>>" ++ check (runes_of_ascii "
+packet msg_type { } MetaData
+leftPad { int32
+calculatedFrom`
+`  ,
+    } /// triple")).
+Eval vm_compute in ("<<<M3400>>>" ++ check (runes_of_ascii "MetaData body { i64 // c
+pack `it's` , } packet stringy { int16 calculatedFrom , }")).
+Eval vm_compute in ("<<<M2234>>>" ++ check (runes_of_ascii "options
+{ } options { match= u16 Header= f64 ; u128 =
     true
     ; } // a // b")).
+Eval vm_compute in ("<<<M2908>>>" ++ check (runes_of_ascii "packet A {
+  match k as n {
+    [""a"", ""bb"", 007, ""d"", ""e""] : B
+    2 : C
+  },
+}")).
 Eval vm_compute in ("<<<M2901>>>" ++ check (runes_of_ascii "packet A {
   match k as n {
     [1, ""bb"", 007, ""d"", 5] : B,
     2 : C
   },
 }")).
-Eval vm_compute in ("<<<M4200>>>" ++ check (runes_of_ascii "// " ++ [27880; 37322]%N ++ runes_of_ascii "
-options {
-    u8x = zchar[0];
-    len = ' ';
-    leftPad = false;
-}")).
-Eval vm_compute in ("<<<M3946>>>" ++ check (runes_of_ascii "packet
-pack
-{int64 options1
-	,
+Eval vm_compute in ("<<<M2974>>>" ++ check (runes_of_ascii "packet A { Inner { match k as n { [1,22,007,4,5,66,7,8,9,10] : B, }, }, }")).
+Eval vm_compute in ("<<<M3756>>>" ++ check (runes_of_ascii "  root packet
+    i8i8
+{ @lengthOf( Packet
+)
+u32
 
-    // packet A { u8 x, }
-    //
-	}
+    u8x ,
 
+    }
 ")).
-Eval vm_compute in ("<<<M4524>>>" ++ check (runes_of_ascii "packet A  { }
-
-packet B
-
-    {	} MetaData
-    M
-{ } 
-options
-	{}
-")).
-Eval vm_compute in ("<<<M2872>>>" ++ check (runes_of_ascii "packet A {
+Eval vm_compute in ("<<<M2879>>>" ++ check (runes_of_ascii "packet A {
   match k as n {
-    [1, 22, 007] : B
+    [1, 22, ""c c""] : B,
     2 : C
   },
 }")).
-Eval vm_compute in ("<<<M3573>>>" ++ check (runes_of_ascii "
-
-  root
-packet
-
-P { repeat
-string
-ss
-
-,	repeat u16 ns
-,
-
-}
-
-")).
-Eval vm_compute in ("<<<M3038>>>" ++ check (runes_of_ascii "packet A {
-    B b `
-x`,
-    B `
-x`,
-    repeat B bs `
-x`,
+Eval vm_compute in ("<<<M1388>>>" ++ check (runes_of_ascii "// trailing space 
+MetaData body { int32
+    MetaDataX
+, As x ,}")).
+Eval vm_compute in ("<<<M3002>>>" ++ check (runes_of_ascii "packet A {
+    B b `a
+b`,
+    B `a
+b`,
+    repeat B bs `a
+b`,
 }")).
-Eval vm_compute in ("<<<M3367>>>" ++ check (runes_of_ascii "packet x // c
-{ @rightPad ( ) repeat roots Logon `doc` , }")).
-Eval vm_compute in ("<<<M2883>>>" ++ check (runes_of_ascii "packet A { Inner { match k as n { [1,22,007] : B, }, }, }")).
-Eval vm_compute in ("<<<M4370>>>" ++ check (runes_of_ascii "// trailing space 
-packet Foo {
-    zchar[255] body,
-}")).
-Eval vm_compute in ("<<<M819>>>" ++ check (runes_of_ascii "MetaData
+Eval vm_compute in ("<<<M1725>>>" ++ check (runes_of_ascii "options { trueish = ""`tick`"" ; string_= """ ++ [233]%N ++ runes_of_ascii "t" ++ [233]%N ++ runes_of_ascii """
     // c
-    Foo{ char[
-00
-    ] Pad ,
-}
-")).
-Eval vm_compute in ("<<<M2584>>>" ++ check (runes_of_ascii "packet A { char[] x @calculatedFrom(""c"") `d`, }")).
-Eval vm_compute in ("<<<M1720>>>" ++ check (runes_of_ascii "options { trueish = ""`tick`"" ; string_= """ ++ [233]%N ++ runes_of_ascii "t" ++ [233]%N ++ runes_of_ascii """")).
-Eval vm_compute in ("<<<M2726>>>" ++ check (runes_of_ascii "] uint16 options repeat uint8 = u32 int64 }")).
-Eval vm_compute in ("<<<M3204>>>" ++ check (runes_of_ascii "root packet u128 { chars `it's` , }
+    }")).
+Eval vm_compute in ("<<<M2765>>>" ++ check (runes_of_ascii "@tag( zchar[ @tag( false @leftPad options @tag( repeat f32")).
+Eval vm_compute in ("<<<M2275>>>" ++ check (runes_of_ascii "options
+{ } options { BodyLength= u16 Header= f64 ; u128")).
+Eval vm_compute in ("<<<M1894>>>" ++ check (runes_of_ascii "MetaData
+    u { }  options {
 // c
-")).
-Eval vm_compute in ("<<<M4487>>>" ++ check (runes_of_ascii "options {
-    f32a = '0';
-}
-
-options {
-}")).
-Eval vm_compute in ("<<<M2672>>>" ++ check (runes_of_ascii "options { a = 1; } options { a = 1; }")).
-Eval vm_compute in ("<<<M951>>>" ++ check (runes_of_ascii "MetaData A
-    {
-//
 // @lengthOf(
-}")).
-Eval vm_compute in ("<<<M2707>>>" ++ check (runes_of_ascii ")1g5_\^|d<j.^kB#_~;!UCf%63fU|C}lDJ")).
-Eval vm_compute in ("<<<M1027>>>" ++ check (runes_of_ascii "options
-    {Header = '\x00';
-}")).
-Eval vm_compute in ("<<<M4297>>>" ++ check (runes_of_ascii "options {	i64_ 
-= 
-""`tick`"" 
+float")).
+Eval vm_compute in ("<<<M537>>>" ++ check (runes_of_ascii "
+MetaData u
+{} packet Header
+{ i64 Logon ``	, }
+")).
+Eval vm_compute in ("<<<M1156>>>" ++ check (runes_of_ascii "
+options {
+    u8x// @lengthOf(
+=
+    false }
+
+")).
+Eval vm_compute in ("<<<M1654>>>" ++ check (runes_of_ascii "packet
+//	t
+// trailing space 
+_x {
+// packet")).
+Eval vm_compute in ("<<<M2855>>>" ++ check (runes_of_ascii ": ( i16 u16 char[ false int8 char i64 int64")).
+Eval vm_compute in ("<<<M448>>>" ++ check (runes_of_ascii "  MetaData chars { len metadata ,
+    }
+")).
+Eval vm_compute in ("<<<M1097>>>" ++ check (runes_of_ascii "// " ++ [27880; 37322]%N ++ runes_of_ascii "
+packet
+    Header {
+}
+// " ++ [128512]%N ++ runes_of_ascii " emoji
+")).
+Eval vm_compute in ("<<<M2801>>>" ++ check (runes_of_ascii "u64 { @lengthOf( root false i8 repeat")).
+Eval vm_compute in ("<<<M1356>>>" ++ check (runes_of_ascii "packet
+trueish	{ uint16 chars , }
+")).
+Eval vm_compute in ("<<<M3174>>>" ++ check (runes_of_ascii "packet A { @tag( // a
+ 1 ) u8 x, }")).
+Eval vm_compute in ("<<<M2776>>>" ++ check (runes_of_ascii "kt*o ,Ndx:NTU=^7""XUGU%zgi5(X*Kwj")).
+Eval vm_compute in ("<<<M1705>>>" ++ check (runes_of_ascii "options { trueish = ""`tick`"" ;")).
+Eval vm_compute in ("<<<M1085>>>" ++ check (runes_of_ascii "options { pack  =  false
+;
 }
 ")).
-Eval vm_compute in ("<<<M3160>>>" ++ check (runes_of_ascii "MetaData M {
-}// c
-packet A {}")).
-Eval vm_compute in ("<<<M1338>>>" ++ check (runes_of_ascii "root
-    packet chars { }
+Eval vm_compute in ("<<<M1884>>>" ++ check (runes_of_ascii "MetaData
+    u { }  options")).
+Eval vm_compute in ("<<<M2798>>>" ++ check (runes_of_ascii "3" ++ [65533]%N ++ runes_of_ascii "XL" ++ [65533; 65533]%N ++ runes_of_ascii "~gO+" ++ [65533]%N ++ runes_of_ascii "x\" ++ [127; 65533; 4]%N ++ runes_of_ascii "`" ++ [24]%N ++ runes_of_ascii "i" ++ [31; 65533; 65533; 65533]%N ++ runes_of_ascii "R" ++ [65533; 65533]%N)).
+Eval vm_compute in ("<<<M4232>>>" ++ check (runes_of_ascii "
+MetaData 
+o { 
+}  // c
 ")).
-Eval vm_compute in ("<<<M2718>>>" ++ check (runes_of_ascii "P@" ++ [65533; 65533; 65533; 65533]%N ++ runes_of_ascii "hB" ++ [65533]%N ++ runes_of_ascii "B" ++ [65533; 65533; 65533; 65533; 65533]%N ++ runes_of_ascii "F}" ++ [0; 65533; 65533; 65533]%N ++ runes_of_ascii "a
-" ++ [65533]%N ++ runes_of_ascii "O" ++ [65533]%N)).
-Eval vm_compute in ("<<<M831>>>" ++ check (runes_of_ascii "packet u8x {int8 As ,}
+Eval vm_compute in ("<<<M4222>>>" ++ check (runes_of_ascii "packet A {
+    x `d`,
+}")).
+Eval vm_compute in ("<<<M3937>>>" ++ check (runes_of_ascii "root packet Logon {
+}")).
+Eval vm_compute in ("<<<M941>>>" ++ check (runes_of_ascii "packet packetx {
+}")).
+Eval vm_compute in ("<<<M610>>>" ++ check (runes_of_ascii "root packet A { }
 ")).
-Eval vm_compute in ("<<<M59>>>" ++ check (runes_of_ascii "// packet A { u8 x, }
-")).
-Eval vm_compute in ("<<<M1227>>>" ++ check (runes_of_ascii "root packet i64_{	}
-")).
-Eval vm_compute in ("<<<M2596>>>" ++ check (runes_of_ascii "packet A { B { }, }")).
-Eval vm_compute in ("<<<M1411>>>" ++ check (runes_of_ascii "
-packet
-    falsey")).
-Eval vm_compute in ("<<<M3121>>>" ++ check (runes_of_ascii "// c" ++ [12]%N ++ runes_of_ascii "
+Eval vm_compute in ("<<<M3116>>>" ++ check (runes_of_ascii "// c" ++ [11]%N ++ runes_of_ascii "
 packet A {
 }")).
-Eval vm_compute in ("<<<M3073>>>" ++ check (runes_of_ascii "packet A {
-}// c" ++ [133]%N)).
-Eval vm_compute in ("<<<M4075>>>" ++ check (runes_of_ascii "packet A {
-}// c")).
-Eval vm_compute in ("<<<M2690>>>" ++ check (runes_of_ascii "[" ++ [29783; 1899]%N ++ runes_of_ascii "]" ++ [65533; 65533]%N ++ runes_of_ascii "[" ++ [65533]%N ++ runes_of_ascii "'" ++ [65533; 65533; 65533; 65533]%N)).
-Eval vm_compute in ("<<<M3668>>>" ++ check (runes_of_ascii "options {
+Eval vm_compute in ("<<<M3068>>>" ++ check (runes_of_ascii "packet A {
+}// c" ++ [160]%N)).
+Eval vm_compute in ("<<<M3717>>>" ++ check (runes_of_ascii "MetaData Pad {
 }")).
-Eval vm_compute in ("<<<M2505>>>" ++ check (runes_of_ascii "// ab
-c")).
-Eval vm_compute in ("<<<M1496>>>" ++ check (runes_of_ascii "packet")).
-Eval vm_compute in ("<<<M2451>>>" ++ check (runes_of_ascii "false")).
-Eval vm_compute in ("<<<M524>>>" ++ check (runes_of_ascii " //x")).
-Eval vm_compute in ("<<<M621>>>" ++ check (runes_of_ascii " 	 ")).
-Eval vm_compute in ("<<<M2829>>>" ++ check (runes_of_ascii "t" ++ [1414]%N ++ runes_of_ascii "I")).
-Eval vm_compute in ("<<<M2519>>>" ++ check (runes_of_ascii "`")).
+Eval vm_compute in ("<<<M2413>>>" ++ check (runes_of_ascii "// c
+packet x")).
+Eval vm_compute in ("<<<M2854>>>" ++ check (runes_of_ascii "( match , {")).
+Eval vm_compute in ("<<<M2767>>>" ++ check ([65533]%N ++ runes_of_ascii "d" ++ [65533; 65533; 65533]%N ++ runes_of_ascii "R" ++ [27; 8]%N)).
+Eval vm_compute in ("<<<M2463>>>" ++ check (runes_of_ascii "repeat")).
+Eval vm_compute in ("<<<M2514>>>" ++ check (runes_of_ascii """ab""")).
+Eval vm_compute in ("<<<M2479>>>" ++ check (runes_of_ascii "'  '")).
+Eval vm_compute in ("<<<M2509>>>" ++ check (runes_of_ascii """a\")).
+Eval vm_compute in ("<<<M2496>>>" ++ check (runes_of_ascii "@@")).
+Eval vm_compute in ("<<<M2683>>>" ++ check (runes_of_ascii "")).
